@@ -5,13 +5,15 @@
    Fragment: skip, stop, return e, if (with xcmp's three shapes for skip branches), while, sequences, assignment
    to a global, a local or a value formal, assignment to an element of an array in scope, the system calls exit
    `0(e)` and put `1(e, s)` as statements, procedure-call statements and function calls as whole right-hand sides
-   (relative to call_spec; XCodegenCall.v discharges it), over the expressions of XCodegenExpr.v.
-   Not in the fragment: calls inside operands and actuals, get, array formals.
+   (relative to call_spec; XCodegenCall.v discharges it), the system call get `2(s)` as a whole right-hand side, over
+   the expressions of XCodegenExpr.v; array names in scope (global arrays, array formals) as actuals.
+   Not in the fragment: calls (and get) inside operands and actuals.
    The code is the one handed to OptimiseDirectives (before its three peephole rewrites).
 
    stmt_correct: if XSem executes the statement from a state related to the machine memory (Rel: protected words
    intact, mem[1] = sp, every variable's word holds its value), then the generated code run on Isa.run from its
-   first byte produces exactly the events of the outputs XSem records, consumes no input, and
+   first byte with the console holding XSem's remaining input emits events whose outputs are exactly those XSem
+   records, leaves the console holding XSem's remaining input, and
      - ends just behind the code in a related state            (the statement terminates normally), or
      - ends at the procedure's exit label with the value in areg (return), or
      - performs the exit system call with the spec's exit value (stop / exit). *)
@@ -66,27 +68,53 @@ Section Codegen.
             do (c, n1) <- cargs args 2 n; Some (c ++ [LDAP n1; BR (pf_entry pi); LABEL n1] ++ [LDAM 1; LDAI 1], n1 + 1)
           else None
         else None
+    | ESys 2 [st] =>
+        (* get: genSysCall in an expression -- the stream goes to the outgoing word sp+2, LDAC 2; SVC, the byte read is
+           in the outgoing word sp+1 *)
+        if 3 <=? og then do (c, n1) <- cge st n; Some (c ++ [LDBM 1; STAI 2; LDAC 2; SVC; LDAM 1; LDAI 1], n1) else None
     | _ => cge e n
+    end.
+
+  (* an expression whose LEFT spine contains a call or get: the operators + - = < with a simple right operand (a
+     literal or a variable: genBinopOperands computes the left operand first, then loads the right one into breg), and ~;
+     anything without a call is an expression of the fragment *)
+  Fixpoint cgl (e : expr) (n : label) : option (list instr * label) :=
+    if pure e then cge e n else
+    match e with
+    | EBin o l r =>
+        if simple r then
+          let arith (opi : instr) :=
+            do (cl, n1) <- cgl l n; do (cr, n2) <- cg venv pool size nslots aenv r RB n1 off0; Some (cl ++ cr ++ [opi], n2) in
+          match o with
+          | Plus => arith ADD
+          | Minus => arith SUB
+          | Eq => do (c, n1) <- (if is_zero r then cgl l n else arith SUB); Some (c ++ bool_tail BRZ n1, n1 + 2)
+          | Ls => do (c, n1) <- (if is_zero r then cgl l n else arith SUB); Some (c ++ bool_tail BRN n1, n1 + 2)
+          | _ => None
+          end
+        else None
+    | EUn Not a => do (c, n1) <- cgl a (n + 2); Some (c ++ bool_tail BRZ n, n1)
+    | _ => cgx e n
     end.
 
   Fixpoint cs (s : stmt) (n : label) {struct s} : option (list instr * label) :=
     match s with
     | SSkip => Some ([], n)
     | SStop => Some ([LDBM 1; LDAC 0; STAI 2; SVC], n)
-    | SReturn e => do (c, n1) <- cgx e n; Some (c ++ [BR exitl], n1)
+    | SReturn e => do (c, n1) <- cgl e n; Some (c ++ [BR exitl], n1)
     | SIf c t e =>
         if is_skip t && is_skip e then (if pure c then Some ([], n) else None)
         else if is_skip e then
-          do (cc, n1) <- cge c (n + 1); do (ct, n2) <- cs t n1;
+          do (cc, n1) <- cgl c (n + 1); do (ct, n2) <- cs t n1;
           Some (cc ++ [BRZ n] ++ ct ++ [LABEL n], n2)
         else if is_skip t then
-          do (cc, n1) <- cge c (n + 2); do (ce, n2) <- cs e n1;
+          do (cc, n1) <- cgl c (n + 2); do (ce, n2) <- cs e n1;
           Some (cc ++ [BRZ n; BR (n + 1); LABEL n] ++ ce ++ [LABEL (n + 1)], n2)
         else
-          do (cc, n1) <- cge c (n + 2); do (ct, n2) <- cs t n1; do (ce, n3) <- cs e n2;
+          do (cc, n1) <- cgl c (n + 2); do (ct, n2) <- cs t n1; do (ce, n3) <- cs e n2;
           Some (cc ++ [BRZ n] ++ ct ++ [BR (n + 1); LABEL n] ++ ce ++ [LABEL (n + 1)], n3)
     | SWhile c b =>
-        do (cc, n1) <- cge c (n + 2); do (cb, n2) <- cs b n1;
+        do (cc, n1) <- cgl c (n + 2); do (cb, n2) <- cs b n1;
         Some ([LABEL n] ++ cc ++ [BRZ (n + 1)] ++ cb ++ [BR n; LABEL (n + 1)], n2)
     | SSeq ss =>
         (fix go (l : list stmt) (n : label) : option (list instr * label) :=
@@ -94,7 +122,7 @@ Section Codegen.
            | [] => Some ([], n)
            | x :: r => do (c1, n1) <- cs x n; do (c2, n2) <- go r n1; Some (c1 ++ c2, n2)
            end) ss n
-    | SAssign x e => do l <- venv x; do (c, n1) <- cgx e n; Some (c ++ store_var l, n1)
+    | SAssign x e => do l <- venv x; do (c, n1) <- cgl e n; Some (c ++ store_var l, n1)
     | SAssignSub a i e =>
         (* the element's address is saved in the first temporary while the value is computed *)
         do l <- aenv a;
@@ -172,7 +200,22 @@ Definition cproc (pinfo : string -> option pframe) (gaddr aaddr : string -> opti
   do c <- cproc_lowered pinfo gaddr aaddr pool p size og; Some (peephole (List.length c) c).
 
 (* ---------------------------------------------------------------- correctness *)
-Definition wr_ev (p : Z * Z) : event := Write (snd p) (fst p).
+(* the outputs among the events of a run, as (stream, byte) *)
+Fixpoint writes (evs : list event) : list (Z * Z) :=
+  match evs with
+  | [] => []
+  | Write b st :: r => (st, b) :: writes r
+  | _ :: r => writes r
+  end.
+Lemma writes_app e1 e2 : writes (e1 ++ e2) = writes e1 ++ writes e2.
+Proof. induction e1 as [|[| | |] r IH]; cbn [app writes]; [reflexivity | exact IH | exact IH | rewrite IH; reflexivity | exact IH]. Qed.
+(* the inputs of the machine when the spec state is s: the console holds what XSem has not consumed yet (input from
+   file streams is outside XSem: the files stay as they are) *)
+Definition adv (inp : inputs) (s : state) : inputs := {| console := input s; files := files inp |}.
+Lemma adv_id inp s : console inp = input s -> adv inp s = inp.
+Proof. destruct inp as [c f]. cbn. intros ->. reflexivity. Qed.
+Lemma adv_eq inp s s' : input s' = input s -> adv inp s' = adv inp s.
+Proof. unfold adv. intros ->. reflexivity. Qed.
 
 Section Correct.
   Variable pinfo : string -> option pframe.
@@ -239,31 +282,40 @@ Section Correct.
   Definition Rel (st : state) (m : WMap.t) : Prop :=
     Cm m /\ rd m 1 = sp /\ (vars_ok venv ge sp m st /\ arrs_ok st m) /\ (stk st <> [] /\ novals st) /\ Dq (f_depth (top st)).
 
-  (* what a statement adds to the spec state besides variables: outputs; nothing else *)
-  Definition post (st st' : state) (outs : list (Z * Z)) : Prop :=
-    out_rev st' = rev outs ++ out_rev st /\ input st' = input st /\ ncons st' = ncons st /\
+  (* what a statement adds to the spec state besides variables: the outputs among the events, and what it consumed of
+     the input (every byte is either still in the input or counted as consumed); nothing else *)
+  Definition post (st st' : state) (outs : list event) : Prop :=
+    out_rev st' = rev (writes outs) ++ out_rev st /\
+    (ncons st' + List.length (input st') = ncons st + List.length (input st))%nat /\
     tl (stk st') = tl (stk st) /\ f_depth (top st') = f_depth (top st).
 
   Lemma post_refl st : post st st []. Proof. repeat split. Qed.
   Lemma post_same st st' : same_store st st' -> post st st' [].
-  Proof. intros (_ & Hk & Ha & Ho & Hi & Hn). unfold post, top. rewrite Hk. repeat split; assumption. Qed.
+  Proof. intros (_ & Hk & Ha & Ho & Hi & Hn). unfold post, top. rewrite Hk, Hi, Hn. repeat split; assumption. Qed.
   Lemma post_trans a b c o1 o2 : post a b o1 -> post b c o2 -> post a c (o1 ++ o2).
   Proof.
-    intros (H1 & H2 & H3 & H5 & H6) (G1 & G2 & G3 & G5 & G6). repeat split; try congruence.
-    rewrite G1, H1, rev_app_distr, app_assoc. reflexivity.
+    intros (H1 & H2 & H5 & H6) (G1 & G2 & G5 & G6). repeat split; try congruence.
+    rewrite G1, H1, writes_app, rev_app_distr, app_assoc. reflexivity.
   Qed.
 
-  (* when the program stops (exit), only the outputs, the input position and the arrays are compared: the
+  (* when the program stops (exit), only the outputs and the input position are compared: the
      stack of the spec state is whatever it was at the exit *)
-  Definition hpost (st st' : state) (outs : list (Z * Z)) : Prop :=
-    out_rev st' = rev outs ++ out_rev st /\ input st' = input st /\ ncons st' = ncons st.
+  Definition hpost (st st' : state) (outs : list event) : Prop :=
+    out_rev st' = rev (writes outs) ++ out_rev st /\
+    (ncons st' + List.length (input st') = ncons st + List.length (input st))%nat.
   Lemma post_hpost st st' o : post st st' o -> hpost st st' o.
-  Proof. intros (H1 & H2 & H3 & _). exact (conj H1 (conj H2 H3)). Qed.
+  Proof. intros (H1 & H2 & _). exact (conj H1 H2). Qed.
   Lemma post_hpost_trans a b c o1 o2 : post a b o1 -> hpost b c o2 -> hpost a c (o1 ++ o2).
   Proof.
-    intros (H1 & H2 & H3 & _) (G1 & G2 & G3). repeat split; try congruence.
-    rewrite G1, H1, rev_app_distr, app_assoc. reflexivity.
+    intros (H1 & H2 & _) (G1 & G2). split; [|congruence].
+    rewrite G1, H1, writes_app, rev_app_distr, app_assoc. reflexivity.
   Qed.
+  Lemma same_store_input a b : same_store a b -> input b = input a.
+  Proof. intros (_ & _ & _ & _ & Hi & _). exact Hi. Qed.
+  Lemma con_same inp a b : console inp = input a -> same_store a b -> console inp = input b.
+  Proof. intros H S. rewrite (same_store_input _ _ S). exact H. Qed.
+  Lemma taus_adv inp s X Y : console inp = input s -> taus inp X Y -> runs inp X [] (adv inp s) Y.
+  Proof. intros H T. rewrite (adv_id inp s H). exact T. Qed.
 
   Lemma in_mem_range a : in_mem a = true -> 0 <= a < MEMW.
   Proof. unfold in_mem. intros H. apply andb_prop in H. destruct H as [H1 H2]. apply Z.leb_le in H1. apply Z.ltb_lt in H2. lia. Qed.
@@ -409,7 +461,7 @@ Section Correct.
   Lemma assign_ok x l n st m m' :
     venv x = Some l -> in_int n = true -> Rel st m ->
     rd m' (addr_of l) = n mod W -> (forall a, 0 <= a -> a <> addr_of l -> rd m' a = rd m a) ->
-    exists st', assign ge x n st = Ret Normal st' /\ Rel st' m' /\ post st st' [].
+    exists st', assign ge x n st = Ret Normal st' /\ Rel st' m' /\ post st st' [] /\ input st' = input st.
   Proof.
     intros Hx Hn (A & B & [[Hg Hf] HA] & [E NV] & Q) Hw Hm.
     destruct (Hvar x l Hx) as (Hin & Hns & HnP & Hn1).
@@ -429,7 +481,7 @@ Section Correct.
     destruct l as [ga|k]; cbn [addr_of] in *.
     - (* a global *)
       destruct (Hg x ga Hx) as (N1 & N2 & N3 & v & Hv & _). rewrite Htop in N1, N2. rewrite N1, N2, N3, Hv.
-      eexists. split; [reflexivity|]. split; [|unfold post, top; cbn; rewrite ?Es; repeat split].
+      eexists. split; [reflexivity|]. split; [|split; [unfold post, top; cbn; rewrite ?Es; repeat split | reflexivity]].
       split; [exact HC'|]. split; [exact H1'|]. split; [|split; [split; [cbn; rewrite Es; discriminate | unfold novals, top in *; cbn; rewrite Es in *; exact NV] | unfold top in *; cbn; rewrite Es in *; exact Q]].
       split; [|apply (arrs_ok_state st _ m'); [reflexivity | reflexivity | intros a la _; reflexivity | | exact HA'];
                intros a Ha; cbn [gvars note_wr set_gvars set_cur]; apply assoc_update_none; exact Ha].
@@ -456,7 +508,7 @@ Section Correct.
                                  = Ret Normal st' /\ st' = set_stk st ({| f_vars := update x (Vint n) (f_vars fr); f_vals := f_vals fr; f_depth := f_depth fr |} :: rest)).
       { destruct Hvok as [->|(z & -> & _)]; eexists; split; reflexivity. }
       destruct Hupd as (st' & Hst' & ->). exists (set_stk st ({| f_vars := update x (Vint n) (f_vars fr); f_vals := f_vals fr; f_depth := f_depth fr |} :: rest)).
-      split; [exact Hst'|]. split; [|unfold post, top; cbn; rewrite ?Es; repeat split].
+      split; [exact Hst'|]. split; [|split; [unfold post, top; cbn; rewrite ?Es; repeat split | reflexivity]].
       split; [exact HC'|]. split; [exact H1'|]. split; [|split; [split; [cbn; discriminate | unfold novals, top in *; cbn; rewrite Es in NV; exact NV] | unfold top in *; cbn; rewrite Es in Q; exact Q]].
       split.
       2:{ apply (arrs_ok_state st _ m'); [reflexivity | unfold top; cbn [stk set_stk f_vals]; rewrite Es; reflexivity | | intros a Ha; exact Ha | exact HA'].
@@ -504,16 +556,16 @@ Section Correct.
   Definition result_ok (st : state) (r : res flow) (m : WMap.t) (pos nxt a b : Z) (inp : inputs) : Prop :=
     match r with
     | Ret Normal st' =>
-        exists outs a' b' m', runs inp (mk pos a b 0 m) (map wr_ev outs) inp (mk nxt a' b' 0 m') /\ Rel st' m' /\ post st st' outs /\ frame_only m m'
+        exists outs a' b' m', runs inp (mk pos a b 0 m) outs (adv inp st') (mk nxt a' b' 0 m') /\ Rel st' m' /\ post st st' outs /\ frame_only m m'
     | Ret (Returned v) st' =>
         exists outs z b' m', v = Vint z /\ in_int z = true /\
-          runs inp (mk pos a b 0 m) (map wr_ev outs) inp (mk (lab exitl) (z mod W) b' 0 m') /\ Rel st' m' /\ post st st' outs /\ frame_only m m'
-    | Halt c st' => exists outs, exits inp (mk pos a b 0 m) (map wr_ev outs) inp (c mod W) /\ hpost st st' outs
+          runs inp (mk pos a b 0 m) outs (adv inp st') (mk (lab exitl) (z mod W) b' 0 m') /\ Rel st' m' /\ post st st' outs /\ frame_only m m'
+    | Halt c st' => exists outs, exits inp (mk pos a b 0 m) outs (adv inp st') (c mod W) /\ hpost st st' outs
     | Fail _ => True
     end.
 
   Lemma post_start st st0 st' o : same_store st st0 -> post st0 st' o -> post st st' o.
-  Proof. intros (_ & Hk & Ha & Ho & Hi & Hn) (H1 & H2 & H3 & H5 & H6). unfold post, top in *. rewrite <- Hk. repeat split; congruence. Qed.
+  Proof. intros (_ & Hk & Ha & Ho & Hi & Hn) (H1 & H2 & H5 & H6). unfold post, top in *. rewrite <- Hk. repeat split; congruence. Qed.
 
   Lemma result_ok_start st st0 r m pos nxt a b inp : same_store st st0 ->
     result_ok st0 r m pos nxt a b inp -> result_ok st r m pos nxt a b inp.
@@ -523,7 +575,7 @@ Section Correct.
     - intros (o & z & b' & m' & H0 & H0' & H1 & H2 & H3 & H4). exists o, z, b', m'.
       exact (conj H0 (conj H0' (conj H1 (conj H2 (conj (post_start _ _ _ _ Hs H3) H4))))).
     - intros (o & H1 & H2). exists o. split; [exact H1|]. destruct Hs as (_ & _ & Ha & Ho & Hi & Hn).
-      destruct H2 as (G1 & G2 & G3). unfold hpost. repeat split; congruence.
+      destruct H2 as (G1 & G2). unfold hpost. split; congruence.
   Qed.
 
   Notation cs' := (cs pinfo venv pool size nslots aenv off0 og exitl).
@@ -535,46 +587,53 @@ Section Correct.
 
   (* running a prefix and then the rest *)
   Lemma result_ok_after st st1 r m m1 pos p1 nxt a b a1 b1 inp o1 :
-    runs inp (mk pos a b 0 m) (map wr_ev o1) inp (mk p1 a1 b1 0 m1) -> post st st1 o1 -> frame_only m m1 ->
-    result_ok st1 r m1 p1 nxt a1 b1 inp -> result_ok st r m pos nxt a b inp.
+    runs inp (mk pos a b 0 m) o1 (adv inp st1) (mk p1 a1 b1 0 m1) -> post st st1 o1 -> frame_only m m1 ->
+    result_ok st1 r m1 p1 nxt a1 b1 (adv inp st1) -> result_ok st r m pos nxt a b inp.
   Proof.
     intros Hr Hp Hfo. destruct r as [[|v] st'|c st'|u]; cbn [result_ok]; trivial.
-    - intros (o & a' & b' & m' & H1 & H2 & H3 & H4). exists (o1 ++ o), a', b', m'. rewrite map_app.
+    - intros (o & a' & b' & m' & H1 & H2 & H3 & H4). exists (o1 ++ o), a', b', m'. change (adv (adv inp st1) st') with (adv inp st') in H1.
       exact (conj (runs_trans _ _ _ _ _ _ _ _ Hr H1) (conj H2 (conj (post_trans _ _ _ _ _ Hp H3) (frame_only_trans _ _ _ Hfo H4)))).
-    - intros (o & z & b' & m' & H0 & H0' & H1 & H2 & H3 & H4). exists (o1 ++ o), z, b', m'. rewrite map_app.
+    - intros (o & z & b' & m' & H0 & H0' & H1 & H2 & H3 & H4). exists (o1 ++ o), z, b', m'. change (adv (adv inp st1) st') with (adv inp st') in H1.
       exact (conj H0 (conj H0' (conj (runs_trans _ _ _ _ _ _ _ _ Hr H1) (conj H2 (conj (post_trans _ _ _ _ _ Hp H3) (frame_only_trans _ _ _ Hfo H4)))))).
-    - intros (o & H1 & H2). exists (o1 ++ o). rewrite map_app.
+    - intros (o & H1 & H2). exists (o1 ++ o). change (adv (adv inp st1) st') with (adv inp st') in H1.
       exact (conj (runs_exits _ _ _ _ _ _ _ _ Hr H1) (post_hpost_trans _ _ _ _ _ Hp H2)).
   Qed.
 
   Lemma result_ok_after_taus st r m m1 pos p1 nxt a b a1 b1 inp :
     taus inp (mk pos a b 0 m) (mk p1 a1 b1 0 m1) -> frame_only m m1 ->
     result_ok st r m1 p1 nxt a1 b1 inp -> result_ok st r m pos nxt a b inp.
-  Proof. intros Ht Hf. apply (result_ok_after st st r m m1 pos p1 nxt a b a1 b1 inp []); [exact Ht | apply post_refl | exact Hf]. Qed.
+  Proof.
+    intros Ht Hfo. destruct r as [[|v] st'|c st'|u]; cbn [result_ok]; trivial.
+    - intros (o & a' & b' & m' & H1 & H2 & H3 & H4). exists o, a', b', m'.
+      exact (conj (taus_runs _ _ _ _ _ _ Ht H1) (conj H2 (conj H3 (frame_only_trans _ _ _ Hfo H4)))).
+    - intros (o & z & b' & m' & H0 & H0' & H1 & H2 & H3 & H4). exists o, z, b', m'.
+      exact (conj H0 (conj H0' (conj (taus_runs _ _ _ _ _ _ Ht H1) (conj H2 (conj H3 (frame_only_trans _ _ _ Hfo H4)))))).
+    - intros (o & H1 & H2). exists o. exact (conj (taus_exits _ _ _ _ _ _ Ht H1) H2).
+  Qed.
 
   Definition stmt_ok (f : nat) : Prop :=
     forall s n code n' st, cs' s n = Some (code, n') ->
-    forall m pos nxt a b inp, Rel st m -> code_at Cm lab pos code nxt -> 0 <= pos -> nxt < W -> 0 <= lab exitl < W ->
+    forall m pos nxt a b inp, Rel st m -> console inp = input st -> code_at Cm lab pos code nxt -> 0 <= pos -> nxt < W -> 0 <= lab exitl < W ->
     result_ok st (exec f ge s st) m pos nxt a b inp.
 
   Lemma seq_ok F : (forall f, (f < F)%nat -> stmt_ok f) ->
     forall ss f, (f < F)%nat -> forall n code n' st, cs_list pinfo venv pool size nslots aenv off0 og exitl ss n = Some (code, n') ->
-    forall m pos nxt a b inp, Rel st m -> code_at Cm lab pos code nxt -> 0 <= pos -> nxt < W -> 0 <= lab exitl < W ->
+    forall m pos nxt a b inp, Rel st m -> console inp = input st -> code_at Cm lab pos code nxt -> 0 <= pos -> nxt < W -> 0 <= lab exitl < W ->
     result_ok st (execs f ge ss st) m pos nxt a b inp.
   Proof.
-    intros IH. induction ss as [|x r IHr]; intros f Hf n code n' st Hcs m pos nxt a b inp HR Hc Hp Hn Hex;
+    intros IH. induction ss as [|x r IHr]; intros f Hf n code n' st Hcs m pos nxt a b inp HR Hcon Hc Hp Hn Hex;
       (destruct f as [|f0]; [exact I|]); cbn [execs execs_body]; cbn [cs_list] in Hcs.
     - inversion Hcs; subst code n'. cbn [code_at] in Hc. subst nxt.
-      exists [], a, b, m. exact (conj (runs_refl _ _) (conj HR (conj (post_refl st) (frame_only_refl m)))).
+      exists [], a, b, m. exact (conj (taus_adv _ _ _ _ Hcon (taus_refl _ _)) (conj HR (conj (post_refl st) (frame_only_refl m)))).
     - destruct (cs' x n) as [[c1 n1]|] eqn:E1; [|discriminate]. cbn [obind] in Hcs.
       destruct (cs_list pinfo venv pool size nslots aenv off0 og exitl r n1) as [[c2 n2]|] eqn:E2; [|discriminate]. cbn [obind] in Hcs.
       inversion Hcs; subst code n'. apply code_at_app in Hc. destruct Hc as (p1 & Hc1 & Hc2).
       pose proof (code_at_le _ _ _ _ _ Hc1) as L1. pose proof (code_at_le _ _ _ _ _ Hc2) as L2.
-      pose proof (IH f0 ltac:(lia) x n c1 n1 st E1 m pos p1 a b inp HR Hc1 Hp ltac:(lia) Hex) as H1.
+      pose proof (IH f0 ltac:(lia) x n c1 n1 st E1 m pos p1 a b inp HR Hcon Hc1 Hp ltac:(lia) Hex) as H1.
       destruct (exec f0 ge x st) as [[|v] st1|c st1|u]; cbn [bind rcase]; cbn [result_ok] in H1.
       + destruct H1 as (o1 & a1 & b1 & m1 & R1 & HR1 & P1 & F1).
         eapply result_ok_after; [exact R1 | exact P1 | exact F1|].
-        exact (IHr f0 ltac:(lia) n1 c2 n2 st1 E2 m1 p1 nxt a1 b1 inp HR1 Hc2 ltac:(lia) Hn Hex).
+        exact (IHr f0 ltac:(lia) n1 c2 n2 st1 E2 m1 p1 nxt a1 b1 (adv inp st1) HR1 eq_refl Hc2 ltac:(lia) Hn Hex).
       + exact H1.
       + exact H1.
       + exact I.
@@ -725,16 +784,16 @@ Section Correct.
   Definition ret_ok (isf : bool) (st : state) (r : res value) (m : WMap.t) (pos nxt a b : Z) (inp : inputs) : Prop :=
     match r with
     | Ret v st' => exists outs a' b' m',
-        runs inp (mk pos a b 0 m) (map wr_ev outs) inp (mk nxt a' b' 0 m') /\
+        runs inp (mk pos a b 0 m) outs (adv inp st') (mk nxt a' b' 0 m') /\
         Rel st' m' /\ post st st' outs /\ frame_only m m' /\
         (isf = true -> exists z, v = Vint z /\ in_int z = true /\ rd m' (sp + 1) = z mod W)
-    | Halt c st' => exists outs, exits inp (mk pos a b 0 m) (map wr_ev outs) inp (c mod W) /\ hpost st st' outs
+    | Halt c st' => exists outs, exits inp (mk pos a b 0 m) outs (adv inp st') (c mod W) /\ hpost st st' outs
     | Fail _ => True
     end.
   Definition call_spec (f : nat) : Prop :=
     forall p pi vs st m link b inp,
       pinfo p = Some pi ->
-      Rel st m -> args_stored vs (koff pi) m -> Z.of_nat (List.length vs) + koff pi <= og -> 0 <= link < W ->
+      Rel st m -> console inp = input st -> args_stored vs (koff pi) m -> Z.of_nat (List.length vs) + koff pi <= og -> 0 <= link < W ->
       ret_ok (pf_isfunc pi) st (invoke (exec f ge) ge (pf_isfunc pi) p vs st) m (lab (pf_entry pi)) link link b inp.
 
   Lemma ret_ok_start isf st st0 r m pos nxt a b inp : same_store st st0 ->
@@ -743,7 +802,7 @@ Section Correct.
     intros Hs. destruct r as [v st'|c st'|u]; cbn [ret_ok]; trivial.
     - intros (o & a' & b' & m' & H1 & H2 & H3 & H4). exists o, a', b', m'. exact (conj H1 (conj H2 (conj (post_start _ _ _ _ Hs H3) H4))).
     - intros (o & H1 & H2). exists o. split; [exact H1|]. destruct Hs as (_ & _ & Ha & Ho & Hi & Hn).
-      destruct H2 as (G1 & G2 & G3). unfold hpost. repeat split; congruence.
+      destruct H2 as (G1 & G2). unfold hpost. split; congruence.
   Qed.
   Lemma ret_ok_after_taus isf st r m m1 pos p1 nxt a b a1 b1 inp :
     taus inp (mk pos a b 0 m) (mk p1 a1 b1 0 m1) -> frame_only m m1 ->
@@ -875,12 +934,12 @@ Section Correct.
   Lemma run_call F : (forall f', (f' < F)%nat -> call_spec f') ->
     forall g pi args n c n1 f0 st0 m pos nxt a b inp, (f0 < F)%nat ->
     pinfo g = Some pi -> Z.of_nat (List.length args) + koff pi <= og ->
-    cargs' args (koff pi) n = Some (c, n1) -> Rel st0 m ->
+    cargs' args (koff pi) n = Some (c, n1) -> Rel st0 m -> console inp = input st0 ->
     code_at Cm lab pos (c ++ [LDAP n1; BR (pf_entry pi); LABEL n1]) nxt -> 0 <= pos -> nxt < W ->
     ret_ok (pf_isfunc pi) st0
       (bind (operands (evals f0 ge) args st0) (fun vs s1 => invoke (exec f0 ge) ge (pf_isfunc pi) g vs s1)) m pos nxt a b inp.
   Proof.
-    intros Hcall g pi args n c n1 f0 st0 m pos nxt a b inp Hf Epi Eog Ec HR0 Hc Hp Hn.
+    intros Hcall g pi args n c n1 f0 st0 m pos nxt a b inp Hf Epi Eog Ec HR0 Hcon Hc Hp Hn.
     assert (Hk0 : 1 <= koff pi <= 2) by (unfold koff; destruct (pf_isfunc pi); lia).
     apply code_at_app in Hc. destruct Hc as (p1 & Hc1 & Hc). one_instr Hc p2 Hi2. one_instr Hc p3 Hi3. one_instr Hc p4 Hi4. subst p4.
     cbn [instr_at] in Hi4. destruct Hi4 as [E4 Ll]. subst p3.
@@ -902,30 +961,46 @@ Section Correct.
     assert (Hf1 : frame_only m m1).
     { intros x Hx Hns _. apply Hk1; [exact Hx | intros Ht; apply Hns; left; exact Ht|].
       intros Hr. apply Hns. right. left. unfold O. lia. }
-    pose proof (Hcall f0 Hf g pi (map fst L) s1 m1 nxt b1 inp Epi HR1' Hst ltac:(rewrite Hlen; lia) ltac:(lia)) as Hcs1.
+    pose proof (Hcall f0 Hf g pi (map fst L) s1 m1 nxt b1 inp Epi HR1' ltac:(rewrite (same_store_input _ _ Hss); exact Hcon) Hst ltac:(rewrite Hlen; lia) ltac:(lia)) as Hcs1.
     apply (ret_ok_start _ st0 s1); [exact Hss|].
     eapply ret_ok_after_taus; [eapply (taus_trans inp _ _ _ T1 (taus_trans inp _ _ _ T2 T3)) | exact Hf1 | exact Hcs1].
   Qed.
 
-  Lemma cgx_cases e n : (exists g args, e = ECall g args) \/ cgx' e n = cge' e n.
-  Proof. destruct e; try (right; reflexivity). left. eexists. eexists. reflexivity. Qed.
+  Lemma signed_word z : in_int z = true -> signed (z mod W) = z.
+  Proof.
+    intros H. unfold in_int, min_int, max_int in H. apply andb_prop in H. destruct H as [H1 H2]. apply Z.leb_le in H1. apply Z.leb_le in H2.
+    unfold signed, negative. destruct (Z_lt_dec z 0) as [Hn|Hn].
+    - replace (z mod W) with (z + W) by (symmetry; rewrite <- (Z_mod_plus_full z 1 W); apply Z.mod_small; unfold W; lia).
+      destruct (2147483648 <=? z + W) eqn:E; [lia|]. apply Z.leb_gt in E. unfold W in E. lia.
+    - rewrite Z.mod_small by (unfold W; lia). destruct (2147483648 <=? z) eqn:E; [apply Z.leb_le in E; lia | reflexivity].
+  Qed.
+  Lemma byte_in_int x : in_int (x mod 256) = true.
+  Proof. pose proof (Z.mod_pos_bound x 256 ltac:(lia)). unfold in_int, min_int, max_int. apply andb_true_intro. split; apply Z.leb_le; lia. Qed.
+
+  Lemma cgx_cases e n : (exists g args, e = ECall g args) \/ (exists st, e = ESys 2 [st]) \/ cgx' e n = cge' e n.
+  Proof.
+    destruct e as [| | | | |g args|sn args| |]; try (right; right; reflexivity).
+    - left. eexists. eexists. reflexivity.
+    - destruct sn as [|[p|[p|p|]|]|p]; try (right; right; reflexivity).
+      destruct args as [|st [|x r]]; [right; right; reflexivity | right; left; exists st; reflexivity | right; right; reflexivity].
+  Qed.
 
   (* the value of a right-hand side: what XSem's eval answers, the code does, leaving the value in areg *)
   Definition rhs_ok (st : state) (r : res value) (m : WMap.t) (pos nxt a b : Z) (inp : inputs) : Prop :=
     match r with
     | Ret v s => exists outs z b' m', v = Vint z /\ in_int z = true /\
-        runs inp (mk pos a b 0 m) (map wr_ev outs) inp (mk nxt (z mod W) b' 0 m') /\ Rel s m' /\ post st s outs /\ frame_only m m'
-    | Halt c0 s => exists outs, exits inp (mk pos a b 0 m) (map wr_ev outs) inp (c0 mod W) /\ hpost st s outs
+        runs inp (mk pos a b 0 m) outs (adv inp s) (mk nxt (z mod W) b' 0 m') /\ Rel s m' /\ post st s outs /\ frame_only m m'
+    | Halt c0 s => exists outs, exits inp (mk pos a b 0 m) outs (adv inp s) (c0 mod W) /\ hpost st s outs
     | Fail _ => True
     end.
 
   Lemma run_cgx F : (forall f', (f' < F)%nat -> call_spec f') ->
     forall e n c n1 f st m pos nxt a b inp, (f <= F)%nat ->
-    cgx' e n = Some (c, n1) -> Rel st m -> code_at Cm lab pos c nxt -> 0 <= pos -> nxt < W ->
+    cgx' e n = Some (c, n1) -> Rel st m -> console inp = input st -> code_at Cm lab pos c nxt -> 0 <= pos -> nxt < W ->
     rhs_ok st (eval f ge e st) m pos nxt a b inp.
   Proof.
-    intros Hcall e n c n1 f st m pos nxt a b inp Hf Hcg HR Hc Hp Hn.
-    destruct (cgx_cases e n) as [(g & args & ->)|Heq].
+    intros Hcall e n c n1 f st m pos nxt a b inp Hf Hcg HR Hcon Hc Hp Hn.
+    destruct (cgx_cases e n) as [(g & args & ->)|[(se & ->)|Heq]].
     - (* a function call *)
       cbn [cgx] in Hcg. destruct (pinfo g) as [pi|] eqn:Epi; [|discriminate]. cbn [obind] in Hcg.
       destruct (pf_isfunc pi) eqn:Eisf; [|discriminate].
@@ -941,34 +1016,409 @@ Section Correct.
       change (eval (S f1) ge (ECall g args) st) with (eval_body (eval f1 ge) (evals f1 ge) (exec f1 ge) ge (ECall g args) st).
       cbn [eval_body]. destruct (call_is_proc g pi st m Epi HR) as [-> | ->]; [|exact I].
       rewrite <- Hko in Ec, Eog.
-      pose proof (run_call F Hcall g pi args n cc n2 f1 st m pos p1 a b inp ltac:(lia) Epi ltac:(lia) Ec HR Hc1 Hp ltac:(lia)) as R.
+      pose proof (run_call F Hcall g pi args n cc n2 f1 st m pos p1 a b inp ltac:(lia) Epi ltac:(lia) Ec HR Hcon Hc1 Hp ltac:(lia)) as R.
       rewrite Eisf in R.
       destruct (bind (operands (evals f1 ge) args st) (fun vs s1 => invoke (exec f1 ge) ge true g vs s1)) as [v s|hc hs|u];
         cbn [ret_ok rhs_ok] in *; [| exact R | exact I].
       destruct R as (outs & a1 & b1 & m1 & R1 & HR1 & P1 & F1 & Hv). destruct (Hv eq_refl) as (z & -> & Hz & Hrd).
       pose proof HR1 as (HC1 & H11 & _).
-      pose proof (exec_instr Cm lab m1 p1 p2 (LDAM 1) a1 b1 inp eq_refl Hi2 HC1 eq_refl ltac:(lia)) as T2.
+      pose proof (exec_instr Cm lab m1 p1 p2 (LDAM 1) a1 b1 (adv inp s) eq_refl Hi2 HC1 eq_refl ltac:(lia)) as T2.
       cbn [sem fst snd] in T2. rewrite H11 in T2.
       destruct (O_facts 1 ltac:(lia)) as (Oin1 & _).
       assert (R3 : readable (LDAI 1) sp b1) by (cbn [readable]; rewrite (in_mem_wrap _ Oin1); exact Oin1).
-      pose proof (exec_instr Cm lab m1 p2 nxt (LDAI 1) sp b1 inp eq_refl Hi3 HC1 R3 Hn) as T3.
+      pose proof (exec_instr Cm lab m1 p2 nxt (LDAI 1) sp b1 (adv inp s) eq_refl Hi3 HC1 R3 Hn) as T3.
       cbn [sem fst snd] in T3. rewrite (in_mem_wrap _ Oin1), Hrd in T3.
       exists outs, z, b1, m1. split; [reflexivity|]. split; [exact Hz|]. split; [|exact (conj HR1 (conj P1 F1))].
       eapply runs_taus; [exact R1|]. eapply taus_trans; [exact T2 | exact T3].
+    - (* get: the stream to the outgoing word sp+2, LDAC 2; SVC, the byte from the outgoing word sp+1 *)
+      cbn [cgx] in Hcg. destruct (3 <=? og) eqn:Eog; [|discriminate]. apply Z.leb_le in Eog.
+      destruct (cge' se n) as [[cc n2]|] eqn:Ec; [|discriminate]. cbn [obind] in Hcg. inversion Hcg; subst c n1.
+      apply code_at_app in Hc. destruct Hc as (p1 & Hc1 & Hc).
+      assert (Hc12 : exists p3, code_at Cm lab p1 [LDBM 1; STAI 2] p3 /\ code_at Cm lab p3 [LDAC 2; SVC; LDAM 1; LDAI 1] nxt).
+      { apply (code_at_app Cm lab [LDBM 1; STAI 2] [LDAC 2; SVC; LDAM 1; LDAI 1]). exact Hc. }
+      destruct Hc12 as (p3 & Hc2 & Hc3). one_instr Hc3 p4 Hi4. one_instr Hc3 p5 Hi5. one_instr Hc3 p6 Hi6. one_instr Hc3 p7 Hi7. subst p7.
+      pose proof (code_at_le _ _ _ _ _ Hc1) as L1. pose proof (code_at_le _ _ _ _ _ Hc2) as L2.
+      pose proof (instr_at_le _ _ _ _ _ Hi4) as L4. pose proof (instr_at_le _ _ _ _ _ Hi5) as L5.
+      pose proof (instr_at_le _ _ _ _ _ Hi6) as L6. pose proof (instr_at_le _ _ _ _ _ Hi7) as L7.
+      destruct f as [|f1]; [exact I|].
+      change (eval (S f1) ge (ESys 2 [se]) st) with (eval_body (eval f1 ge) (evals f1 ge) (exec f1 ge) ge (ESys 2 [se]) st).
+      cbn [eval_body].
+      destruct (operands (evals f1 ge) [se] st) as [vs s1|hc hs|u] eqn:Eo; cbn [bind rcase]; [| |exact I].
+      2:{ exfalso. unfold operands in Eo. apply bind_halt in Eo. destruct Eo as [Eo|(L & s1 & _ & Eo)].
+          - refine (evals_no_halt ge [se] _ f1 st hc hs Eo). intros e0 [<-|[]]. exact (pure_no_halt ge se (cge_pure _ _ _ Ec)).
+          - destruct (conflicts (map snd L)); discriminate. }
+      apply operands_ret in Eo. destruct Eo as (L & Eo & ->).
+      destruct (evals_one _ _ _ _ _ _ Eo) as (f2 & v & st1 & s1' & S0 & Ee & HL & S1). rewrite HL.
+      destruct (run_expr se n cc n2 f2 st1 v s1' m Ec Ee (Rel_same _ _ _ S0 HR)) as [Hss (z & -> & Hz & Hrun)].
+      destruct (Hrun pos p1 a b inp Hc1 Hp ltac:(lia)) as (b1 & m1 & T1 & HR1 & Hk1).
+      assert (Sall : same_store st s1) by (eapply same_store_trans; [exact S0|]; eapply same_store_trans; [exact Hss | exact S1]).
+      cbn [do_sys int_of]. destruct (z <? 256) eqn:Ez; [|exact I]. apply Z.ltb_lt in Ez.
+      destruct (O_facts 2 ltac:(lia)) as (Oin2 & OnP2 & On12 & OnT2 & Os2 & Opos2).
+      destruct (O_facts 1 ltac:(lia)) as (Oin1 & OnP1 & On11 & OnT1 & Os1 & Opos1).
+      pose proof (run_store_sp 2 m1 p1 p3 (z mod W) b1 inp Hc2 (proj1 HR1) (proj1 (proj2 HR1)) Oin2 ltac:(lia)) as T2.
+      set (m2 := wr m1 (sp + 2) (z mod W)) in *.
+      assert (HR2 : Rel st1 m2) by (apply Rel_wr_scratch; [exact Os2 | exact Opos2 | exact HR1]).
+      pose proof HR2 as (HC2 & H12 & _).
+      pose proof (exec_instr Cm lab m2 p3 p4 (LDAC 2) (z mod W) sp inp eq_refl Hi4 HC2 I ltac:(lia)) as T3.
+      cbn [sem fst snd] in T3. change (2 mod W) with 2 in T3.
+      assert (Hi2' : in_mem (wrap (rd m2 1 + 2)) = true) by (rewrite H12, (in_mem_wrap _ Oin2); exact Oin2).
+      assert (Hi1' : in_mem (wrap (rd m2 1 + 1)) = true) by (rewrite H12, (in_mem_wrap _ Oin1); exact Oin1).
+      assert (Hst : rd m2 (sp + 2) = z mod W) by (unfold m2; apply rd_wr_same).
+      assert (Hcs : is_console (rd m2 (wrap (rd m2 1 + 2))) = true).
+      { rewrite H12, (in_mem_wrap _ Oin2), Hst. unfold is_console. rewrite (signed_word z Hz). apply Z.ltb_lt. exact Ez. }
+      pose proof (exec_svc_get Cm lab m2 p4 p5 sp inp Hi5 HC2 ltac:(lia) Hi2' Hi1' Hcs) as T4.
+      rewrite H12, (in_mem_wrap _ Oin2), (in_mem_wrap _ Oin1), Hst in T4.
+      set (bt := console_byte inp) in *.
+      set (m3 := wr m2 (sp + 1) bt) in *.
+      assert (HR3 : Rel st1 m3) by (apply Rel_wr_scratch; [exact Os1 | exact Opos1 | exact HR2]).
+      pose proof HR3 as (HC3 & H13 & _).
+      pose proof (exec_instr Cm lab m3 p5 p6 (LDAM 1) 2 sp (console_next inp) eq_refl Hi6 HC3 eq_refl ltac:(lia)) as T5.
+      cbn [sem fst snd] in T5. rewrite H13 in T5.
+      assert (R6 : readable (LDAI 1) sp sp) by (cbn [readable]; rewrite (in_mem_wrap _ Oin1); exact Oin1).
+      pose proof (exec_instr Cm lab m3 p6 nxt (LDAI 1) sp sp (console_next inp) eq_refl Hi7 HC3 R6 Hn) as T6.
+      cbn [sem fst snd] in T6. rewrite (in_mem_wrap _ Oin1) in T6. unfold m3 in T6 at 2. rewrite rd_wr_same in T6.
+      assert (Hci : console inp = input s1) by (rewrite (same_store_input _ _ Sall); exact Hcon).
+      assert (Hfo : frame_only m m3).
+      { eapply frame_only_trans; [apply frame_only_T; exact Hk1|].
+        eapply frame_only_trans; [apply (frame_only_wr_scratch m1 (sp + 2) (z mod W) Os2 Opos2)|].
+        apply (frame_only_wr_scratch m2 (sp + 1) bt Os1 Opos1). }
+      assert (Hrun3 : forall s', console_next inp = adv inp s' ->
+                runs inp (mk pos a b 0 m) [Read (z mod W) bt] (adv inp s') (mk nxt bt sp 0 m3)).
+      { intros s' Hs'. rewrite <- Hs'. eapply taus_runs; [exact T1|]. eapply taus_runs; [exact T2|]. eapply taus_runs; [exact T3|].
+        eapply runs_taus; [exact T4|]. eapply taus_trans; [exact T5 | exact T6]. }
+      assert (Hbt : bt = (match input s1 with [] => 255 | bb :: _ => bb mod 256 end)).
+      { unfold bt, console_byte. rewrite Hci. destruct (input s1); reflexivity. }
+      assert (Hbm : bt mod W = bt).
+      { rewrite Hbt. destruct (input s1) as [|bb r]; [reflexivity|]. pose proof (Z.mod_pos_bound bb 256 ltac:(lia)). apply Z.mod_small. unfold W. lia. }
+      destruct Sall as (Sg & Sk & Sa & So & Si & Sn).
+      destruct (input s1) as [|bb r] eqn:Ein; cbn [rhs_ok].
+      + exists [Read (z mod W) bt], 255, sp, m3. split; [reflexivity|]. split; [reflexivity|].
+        split; [replace (255 mod W) with bt by (rewrite Hbt; reflexivity); apply Hrun3; unfold console_next, adv; rewrite Hci; cbn; rewrite ?Ein; reflexivity|].
+        split; [apply (Rel_eqv s1); [reflexivity | reflexivity | reflexivity | eapply Rel_same; [eapply same_store_trans; [exact Hss | exact S1] | exact HR3]]|].
+        split; [|exact Hfo]. unfold post, top. cbn. rewrite ?Sk, ?So, ?Sn, ?Ein, <- ?Si. cbn [List.length]. repeat split; lia.
+      + exists [Read (z mod W) bt], (bb mod 256), sp, m3. split; [reflexivity|]. split; [apply byte_in_int|].
+        split; [replace ((bb mod 256) mod W) with bt by (rewrite <- Hbm, Hbt; reflexivity); apply Hrun3; unfold console_next, adv; rewrite Hci; cbn; rewrite ?Ein; reflexivity|].
+        split; [apply (Rel_eqv s1); [reflexivity | reflexivity | reflexivity | eapply Rel_same; [eapply same_store_trans; [exact Hss | exact S1] | exact HR3]]|].
+        split; [|exact Hfo]. unfold post, top. cbn. rewrite ?Sk, ?So, ?Sn, ?Ein, <- ?Si. cbn [List.length]. repeat split; lia.
     - (* an expression of the fragment *)
       rewrite Heq in Hcg.
       destruct (eval f ge e st) as [v s1|hc hs|u] eqn:Ee; cbn [rhs_ok]; [| |exact I].
       2:{ exfalso. exact (pure_no_halt ge e (cge_pure _ _ _ Hcg) _ _ _ _ Ee). }
       destruct (run_expr e n c n1 f st v s1 m Hcg Ee HR) as [Hss (z & -> & Hz & Hrun)].
       destruct (Hrun pos nxt a b inp Hc Hp Hn) as (b1 & m1 & T1 & HR1 & Hk1).
-      exists [], z, b1, m1. split; [reflexivity|]. split; [exact Hz|]. split; [exact T1|].
+      exists [], z, b1, m1. split; [reflexivity|]. split; [exact Hz|]. split; [exact (taus_adv _ _ _ _ (con_same _ _ _ Hcon Hss) T1)|].
       split; [eapply Rel_same; eassumption|]. split; [apply post_same; exact Hss | apply frame_only_T; exact Hk1].
+  Qed.
+
+
+  (* ---- calls and get on the left spine of an expression *)
+  Notation cgl' := (cgl pinfo venv pool size nslots aenv off0 og).
+
+  Lemma rhs_ok_start st st0 r m pos nxt a b inp : same_store st st0 ->
+    rhs_ok st0 r m pos nxt a b inp -> rhs_ok st r m pos nxt a b inp.
+  Proof.
+    intros Hs. destruct r as [v s|c s|u]; cbn [rhs_ok]; trivial.
+    - intros (o & z & b' & m' & H0 & H0' & H1 & H2 & H3 & H4). exists o, z, b', m'.
+      exact (conj H0 (conj H0' (conj H1 (conj H2 (conj (post_start _ _ _ _ Hs H3) H4))))).
+    - intros (o & H1 & H2). exists o. split; [exact H1|]. destruct Hs as (_ & _ & Ha & Ho & Hi & Hn).
+      destruct H2 as (G1 & G2). unfold hpost. split; congruence.
+  Qed.
+  Lemma post_end a b c o : post a b o -> same_store b c -> post a c o.
+  Proof. intros H S. pose proof (post_trans _ _ _ _ _ H (post_same _ _ S)) as Q. rewrite app_nil_r in Q. exact Q. Qed.
+
+  Lemma cgl_pure e n : pure e = true -> cgl' e n = cge' e n.
+  Proof. destruct e; cbn [cgl pure]; intros H; try rewrite H; try discriminate; reflexivity. Qed.
+
+  Lemma run_simple_b e n c n1 f st v s m :
+    cg venv pool size nslots aenv e RB n off0 = Some (c, n1) -> eval f ge e st = Ret v s -> Rel st m ->
+    same_store st s /\
+    exists z, v = Vint z /\ in_int z = true /\
+      forall pos nxt a b inp, code_at Cm lab pos c nxt -> 0 <= pos -> nxt < W ->
+      taus inp (mk pos a b 0 m) (mk nxt a (z mod W) 0 m).
+  Proof.
+    intros Hc He (A & B & [D D'] & E).
+    assert (Hglob : forall x a, venv x = Some (LGlobal a) -> in_mem a = true /\ ~ Tm a).
+    { intros x a Hx. destruct (Hvar x _ Hx) as (H1 & H2 & _). cbn [addr_of] in *. split; [exact H1|]. intros Ht. apply H2. left. exact Ht. }
+    assert (Hframe : forall x k, venv x = Some (LFrame k) -> in_mem (sp + k) = true /\ ~ Tm (sp + k)).
+    { intros x k Hx. destruct (Hvar x _ Hx) as (H1 & H2 & _). cbn [addr_of] in *. split; [exact H1|]. intros Ht. apply H2. left. exact Ht. }
+    assert (Harr : forall a l, aenv a = Some l -> in_mem (waddr sp l) = true /\ ~ Tm (waddr sp l)).
+    { intros a l Hal. destruct (Hawd a l Hal) as (H1 & H2 & _). split; [exact H1|]. intros Ht. apply H2. left. exact Ht. }
+    exact (expr_runs_b venv pool size nslots aenv ge P m0 lab sp off0 m A B HT_mem HT_P HT_1 Hpool Hglob Hframe Harr
+                       e n off0 c n1 Hc ltac:(lia) f st v s He D (arrs_arrays st m D')).
+  Qed.
+
+  (* br true; LDAC 0; BR end; true: LDAC 1; end:   leaves 1 when the branch is taken, 0 otherwise *)
+  Lemma run_btail (br : label -> instr) (taken : Z -> bool) n m pos nxt a b inp :
+    (forall l p q a' b', instr_at Cm lab p q (br l) -> Cm m -> q < W -> 0 <= lab l < W ->
+        taus inp (mk p a' b' 0 m) (mk (if taken a' then lab l else q) a' b' 0 m)) ->
+    Cm m -> code_at Cm lab pos (bool_tail br n) nxt -> 0 <= pos -> nxt < W ->
+    taus inp (mk pos a b 0 m) (mk nxt (if taken a then 1 else 0) b 0 m).
+  Proof.
+    intros Hbr HC Hc Hp Hn. unfold bool_tail in Hc.
+    one_instr Hc p1 Hi1. one_instr Hc p2 Hi2. one_instr Hc p3 Hi3. one_instr Hc p4 Hi4. one_instr Hc p5 Hi5. one_instr Hc p6 Hi6.
+    subst p6. cbn [instr_at] in Hi4, Hi6. destruct Hi4 as [E4 Ln]. destruct Hi6 as [E6 Le]. subst p4 p5.
+    pose proof (instr_at_le _ _ _ _ _ Hi2) as L2. pose proof (instr_at_le _ _ _ _ _ Hi3) as L3.
+    pose proof (instr_at_le _ _ _ _ _ Hi5) as L5.
+    assert (L1 : pos <= p1).
+    { assert (Hne : forall l, br l <> LABEL l -> True) by trivial. destruct (br n) eqn:Eb; cbn [instr_at] in Hi1; lia. }
+    pose proof (Hbr n pos p1 a b Hi1 HC ltac:(lia) ltac:(lia)) as T1.
+    destruct (taken a).
+    - eapply taus_trans; [exact T1|]. rewrite Ln.
+      pose proof (exec_instr Cm lab m p3 nxt (LDAC 1) a b inp eq_refl Hi5 HC I Hn) as T5.
+      cbn [sem fst snd] in T5. change (1 mod W) with 1 in T5. exact T5.
+    - eapply taus_trans; [exact T1|].
+      pose proof (exec_instr Cm lab m p1 p2 (LDAC 0) a b inp eq_refl Hi2 HC I ltac:(lia)) as T2.
+      cbn [sem fst snd] in T2. change (0 mod W) with 0 in T2.
+      eapply taus_trans; [exact T2|].
+      pose proof (exec_br Cm lab m p2 p3 (n + 1) 0 b inp Hi3 HC ltac:(lia) ltac:(lia)) as T3. rewrite Le in T3. exact T3.
+  Qed.
+  Lemma run_btail_brz n m pos nxt a b inp : Cm m -> code_at Cm lab pos (bool_tail BRZ n) nxt -> 0 <= pos -> nxt < W ->
+    taus inp (mk pos a b 0 m) (mk nxt (if a =? 0 then 1 else 0) b 0 m).
+  Proof.
+    intros HC Hc Hp Hn. apply (run_btail BRZ (fun x => x =? 0) n m pos nxt a b inp); try assumption.
+    intros l p q a' b' Hi HCm Hq Hl. exact (exec_brz Cm lab m p q l a' b' inp Hi HCm Hq Hl).
+  Qed.
+  Lemma run_btail_brn n m pos nxt a b inp : Cm m -> code_at Cm lab pos (bool_tail BRN n) nxt -> 0 <= pos -> nxt < W ->
+    taus inp (mk pos a b 0 m) (mk nxt (if negative a then 1 else 0) b 0 m).
+  Proof.
+    intros HC Hc Hp Hn. apply (run_btail BRN negative n m pos nxt a b inp); try assumption.
+    intros l p q a' b' Hi HCm Hq Hl. exact (exec_brn Cm lab m p q l a' b' inp Hi HCm Hq Hl).
+  Qed.
+
+  Lemma int_bounds z : in_int z = true -> -2147483648 <= z <= 2147483647.
+  Proof. unfold in_int, min_int, max_int. intros H. apply andb_prop in H. destruct H as [H1 H2]. apply Z.leb_le in H1. apply Z.leb_le in H2. lia. Qed.
+  Lemma w_add x y : wrap (x mod W + y mod W) = (x + y) mod W.
+  Proof. unfold wrap. rewrite <- Zplus_mod. reflexivity. Qed.
+  Lemma w_sub x y : wrap (x mod W - y mod W) = (x - y) mod W.
+  Proof. unfold wrap. rewrite <- Zminus_mod. reflexivity. Qed.
+  Lemma w_zero z : in_int z = true -> (z mod W =? 0) = (z =? 0).
+  Proof.
+    intros H. apply int_bounds in H. unfold W. destruct (z =? 0) eqn:E.
+    - apply Z.eqb_eq in E. subst z. reflexivity.
+    - apply Z.eqb_neq in E. apply Z.eqb_neq. intros Hm. apply Z.mod_divide in Hm; [|lia]. destruct Hm as [q Hq]. lia.
+  Qed.
+  Lemma w_neg z : in_int z = true -> negative (z mod W) = (z <? 0).
+  Proof.
+    intros H. apply int_bounds in H. unfold negative, W. destruct (z <? 0) eqn:E.
+    - apply Z.ltb_lt in E. apply Z.leb_le. replace (z mod 4294967296) with (z + 4294967296); [lia|].
+      symmetry. rewrite <- (Z_mod_plus_full z 1 4294967296). apply Z.mod_small. lia.
+    - apply Z.ltb_ge in E. apply Z.leb_gt. rewrite Z.mod_small by lia. lia.
+  Qed.
+  Lemma w_eq x y : in_int x = true -> in_int y = true -> ((x - y) mod W =? 0) = (x =? y).
+  Proof.
+    intros Hx Hy. apply int_bounds in Hx. apply int_bounds in Hy. unfold W. destruct (x =? y) eqn:E.
+    - apply Z.eqb_eq in E. subst y. rewrite Z.sub_diag. reflexivity.
+    - apply Z.eqb_neq in E. apply Z.eqb_neq. intros Hm. apply Z.mod_divide in Hm; [|lia]. destruct Hm as [q Hq]. lia.
+  Qed.
+  Lemma simple_pure e : simple e = true -> pure e = true.
+  Proof. destruct e; cbn; intros H; try discriminate; reflexivity. Qed.
+
+  (* the two operands: the left one (calls on its left spine) into areg, the simple right one loadable into breg *)
+  Definition opnds_ok (st : state) (r : res (list value)) (rr : expr) (cr : list instr) (m : WMap.t) (pos p1 a b : Z) (inp : inputs) : Prop :=
+    match r with
+    | Ret vs s1 => exists outs x y b1 m1, vs = [Vint x; Vint y] /\ in_int x = true /\ in_int y = true /\
+        runs inp (mk pos a b 0 m) outs (adv inp s1) (mk p1 (x mod W) b1 0 m1) /\ Rel s1 m1 /\ post st s1 outs /\ frame_only m m1 /\
+        (forall p2 a' b', code_at Cm lab p1 cr p2 -> 0 <= p1 -> p2 < W ->
+           taus (adv inp s1) (mk p1 a' b' 0 m1) (mk p2 a' (y mod W) 0 m1)) /\
+        (is_zero rr = true -> y = 0)
+    | Halt c s1 => exists outs, exits inp (mk pos a b 0 m) outs (adv inp s1) (c mod W) /\ hpost st s1 outs
+    | Fail _ => True
+    end.
+
+  Lemma run_left l rr n1 cr n2 f st m pos p1 a b inp :
+    (forall f0, (f0 < f)%nat -> forall st0, same_store st st0 -> rhs_ok st0 (eval f0 ge l st0) m pos p1 a b inp) ->
+    simple rr = true -> cg venv pool size nslots aenv rr RB n1 off0 = Some (cr, n2) ->
+    opnds_ok st (operands (evals f ge) [l; rr] st) rr cr m pos p1 a b inp.
+  Proof.
+    intros IHl Hsr Ecr.
+    destruct (operands (evals f ge) [l; rr] st) as [vs s1|hc hs|u] eqn:Eo; cbn [opnds_ok]; [| |exact I].
+    - destruct (operands_left_ret _ _ _ _ _ _ _ Eo) as (f1 & vl & sl & f2 & vr & st2 & sr & -> & El & S2 & E2 & S3 & ->).
+      pose proof (IHl f1 ltac:(lia) (set_cur st eff0) (same_store_set_cur st eff0)) as R. rewrite El in R. cbn [rhs_ok] in R.
+      destruct R as (outs & x & b1 & m1 & -> & Hx & R1 & HR1 & P1 & F1).
+      destruct (run_simple_b rr n1 cr n2 f2 st2 vr sr m1 Ecr E2 (Rel_same _ _ _ S2 HR1)) as [Hss2 (y & -> & Hy & Hrun)].
+      assert (Sl : same_store sl s1) by (eapply same_store_trans; [exact S2|]; eapply same_store_trans; [exact Hss2 | exact S3]).
+      exists outs, x, y, b1, m1. split; [reflexivity|]. split; [exact Hx|]. split; [exact Hy|].
+      rewrite (adv_eq inp sl s1 (same_store_input _ _ Sl)).
+      split; [exact R1|]. split; [exact (Rel_same _ _ _ Sl HR1)|].
+      split; [exact (post_end _ _ _ _ (post_start _ _ _ _ (same_store_set_cur st eff0) P1) Sl)|]. split; [exact F1|]. split.
+      + intros p2 a' b' Hc2 Hp1 Hp2. exact (Hrun p1 p2 a' b' (adv inp sl) Hc2 Hp1 Hp2).
+      + intros Hz. exact (is_zero_eval ge rr f2 st2 y sr Hz E2).
+    - destruct (operands_left_halt _ _ _ _ _ _ _ (simple_pure rr Hsr) Eo) as (f1 & -> & El).
+      pose proof (IHl f1 ltac:(lia) (set_cur st eff0) (same_store_set_cur st eff0)) as R. rewrite El in R. cbn [rhs_ok] in R.
+      destruct R as (outs & Ex & (G1 & G2)). exists outs. split; [exact Ex|]. cbn [out_rev ncons input set_cur] in G1, G2. exact (conj G1 G2).
+  Qed.
+
+
+  Lemma zero_cg rr n : is_zero rr = true -> exists cr, cg venv pool size nslots aenv rr RB n off0 = Some (cr, n).
+  Proof.
+    unfold is_zero. destruct rr; cbn [lit_of]; try discriminate; intros H; apply Z.eqb_eq in H; cbn [cg lit_of obind]; rewrite H;
+      cbn; eexists; reflexivity.
+  Qed.
+
+  (* left operand; simple right operand into breg; ADD or SUB *)
+  Definition arith_ok (wop : Z -> Z -> Z) (st : state) (r : res (list value)) (m : WMap.t) (pos nxt a b : Z) (inp : inputs) : Prop :=
+    match r with
+    | Ret vs s1 => exists outs x y b1 m1, vs = [Vint x; Vint y] /\ in_int x = true /\ in_int y = true /\
+        runs inp (mk pos a b 0 m) outs (adv inp s1) (mk nxt (wop x y mod W) b1 0 m1) /\ Rel s1 m1 /\ post st s1 outs /\ frame_only m m1
+    | Halt c s1 => exists outs, exits inp (mk pos a b 0 m) outs (adv inp s1) (c mod W) /\ hpost st s1 outs
+    | Fail _ => True
+    end.
+  Lemma run_arith opi wop l rr cl n1 cr n2 f st m pos nxt a b inp :
+    (opi = ADD /\ wop = Z.add) \/ (opi = SUB /\ wop = Z.sub) ->
+    (forall p1, code_at Cm lab pos cl p1 -> p1 < W ->
+       forall f0, (f0 < f)%nat -> forall st0, same_store st st0 -> rhs_ok st0 (eval f0 ge l st0) m pos p1 a b inp) ->
+    simple rr = true -> cg venv pool size nslots aenv rr RB n1 off0 = Some (cr, n2) ->
+    code_at Cm lab pos (cl ++ cr ++ [opi]) nxt -> 0 <= pos -> nxt < W ->
+    arith_ok wop st (operands (evals f ge) [l; rr] st) m pos nxt a b inp.
+  Proof.
+    intros Hop IHl Hsr Ecr Hc Hp Hn.
+    apply code_at_app in Hc. destruct Hc as (p1 & Hc1 & Hc). apply code_at_app in Hc. destruct Hc as (p2 & Hc2 & Hc3).
+    one_instr Hc3 p3 Hi3. subst p3.
+    pose proof (code_at_le _ _ _ _ _ Hc1) as L1. pose proof (code_at_le _ _ _ _ _ Hc2) as L2.
+    assert (L3 : p2 <= nxt) by (destruct Hop as [[-> _]|[-> _]]; exact (instr_at_le _ _ _ _ _ Hi3)).
+    pose proof (run_left l rr n1 cr n2 f st m pos p1 a b inp (IHl p1 Hc1 ltac:(lia)) Hsr Ecr) as R.
+    destruct (operands (evals f ge) [l; rr] st) as [vs s1|hc hs|u]; cbn [opnds_ok arith_ok] in *; [| exact R | exact I].
+    destruct R as (outs & x & y & b1 & m1 & -> & Hx & Hy & R1 & HR1 & P1 & F1 & Hrun & _).
+    pose proof (Hrun p2 (x mod W) b1 Hc2 ltac:(lia) ltac:(lia)) as T2.
+    exists outs, x, y, (y mod W), m1. split; [reflexivity|]. split; [exact Hx|]. split; [exact Hy|].
+    split; [|exact (conj HR1 (conj P1 F1))].
+    eapply runs_taus; [exact R1|]. eapply taus_trans; [exact T2|].
+    destruct Hop as [[-> ->]|[-> ->]].
+    - pose proof (exec_instr Cm lab m1 p2 nxt ADD (x mod W) (y mod W) (adv inp s1) eq_refl Hi3 (proj1 HR1) I Hn) as T3.
+      cbn [sem fst snd] in T3. rewrite w_add in T3. exact T3.
+    - pose proof (exec_instr Cm lab m1 p2 nxt SUB (x mod W) (y mod W) (adv inp s1) eq_refl Hi3 (proj1 HR1) I Hn) as T3.
+      cbn [sem fst snd] in T3. rewrite w_sub in T3. exact T3.
+  Qed.
+
+  Lemma of_bool_int t : in_int (of_bool t) = true. Proof. destruct t; reflexivity. Qed.
+  Lemma of_bool_mod t : of_bool t mod W = if t then 1 else 0. Proof. destruct t; reflexivity. Qed.
+
+  Lemma run_cgl F : (forall f', (f' < F)%nat -> call_spec f') ->
+    forall e n c n1 f st m pos nxt a b inp, (f <= F)%nat ->
+    cgl' e n = Some (c, n1) -> Rel st m -> console inp = input st -> code_at Cm lab pos c nxt -> 0 <= pos -> nxt < W ->
+    rhs_ok st (eval f ge e st) m pos nxt a b inp.
+  Proof.
+    intros Hcall. induction e as [n0|b0|bs|x|ar i IHi|g args|sn args|u e0 IHe|o l IHl rr IHr];
+      intros n c n1 f st m pos nxt a b inp Hf Hcg HR Hcon Hc Hp Hn; cbn [cgl pure] in Hcg;
+      try (match goal with |- rhs_ok _ (eval _ _ ?e0 _) _ _ _ _ _ _ =>
+             exact (run_cgx F Hcall e0 n c n1 f st m pos nxt a b inp Hf Hcg HR Hcon Hc Hp Hn) end).
+    - (* subscript *)
+      destruct (pure i); exact (run_cgx F Hcall (ESub ar i) n c n1 f st m pos nxt a b inp Hf Hcg HR Hcon Hc Hp Hn).
+    - (* unary *)
+      destruct (pure e0) eqn:Ep; [exact (run_cgx F Hcall (EUn u e0) n c n1 f st m pos nxt a b inp Hf Hcg HR Hcon Hc Hp Hn)|].
+      destruct u; [exact (run_cgx F Hcall (EUn Neg e0) n c n1 f st m pos nxt a b inp Hf Hcg HR Hcon Hc Hp Hn)|].
+      (* ~ e0 *)
+      destruct (cgl' e0 (n + 2)) as [[c0 n2]|] eqn:E0; [|discriminate]. cbn [obind] in Hcg. inversion Hcg; subst c n1.
+      apply code_at_app in Hc. destruct Hc as (p1 & Hc1 & Hc2).
+      pose proof (code_at_le _ _ _ _ _ Hc1) as L1. pose proof (code_at_le _ _ _ _ _ Hc2) as L2.
+      destruct f as [|f1]; [exact I|].
+      change (eval (S f1) ge (EUn Not e0) st) with (eval_body (eval f1 ge) (evals f1 ge) (exec f1 ge) ge (EUn Not e0) st).
+      cbn [eval_body].
+      pose proof (IHe (n + 2) c0 n2 f1 st m pos p1 a b inp ltac:(lia) E0 HR Hcon Hc1 Hp ltac:(lia)) as R.
+      destruct (eval f1 ge e0 st) as [v s1|hc hs|u]; cbn [bind rcase rhs_ok] in *; [| exact R | exact I].
+      destruct R as (outs & z & b1 & m1 & -> & Hz & R1 & HR1 & P1 & F1).
+      pose proof (run_btail_brz n m1 p1 nxt (z mod W) b1 (adv inp s1) (proj1 HR1) Hc2 ltac:(lia) Hn) as T2.
+      rewrite (w_zero z Hz) in T2.
+      unfold bool_of, int_of. destruct (z =? 0) eqn:Z0; [|destruct (z =? 1) eqn:Z1; [|exact I]]; cbn [rhs_ok negb of_bool].
+      + exists outs, 1, b1, m1. split; [reflexivity|]. split; [reflexivity|]. split; [|exact (conj HR1 (conj P1 F1))].
+        eapply runs_taus; [exact R1 | exact T2].
+      + exists outs, 0, b1, m1. split; [reflexivity|]. split; [reflexivity|]. split; [|exact (conj HR1 (conj P1 F1))].
+        eapply runs_taus; [exact R1 | exact T2].
+    - (* binary *)
+      destruct (pure l && pure rr) eqn:Ep; [exact (run_cgx F Hcall (EBin o l rr) n c n1 f st m pos nxt a b inp Hf Hcg HR Hcon Hc Hp Hn)|].
+      destruct (simple rr) eqn:Esr; [|discriminate].
+      assert (IHl' : forall cl nl, cgl' l n = Some (cl, nl) -> forall p1, code_at Cm lab pos cl p1 -> p1 < W ->
+                forall f0, (f0 < f)%nat -> forall st0, same_store st st0 -> rhs_ok st0 (eval f0 ge l st0) m pos p1 a b inp).
+      { intros cl nl El p1 Hc1 Hp1 f0 Hf0 st0 Hs0.
+        exact (IHl n cl nl f0 st0 m pos p1 a b inp ltac:(lia) El (Rel_same _ _ _ Hs0 HR) (con_same _ _ _ Hcon Hs0) Hc1 Hp Hp1). }
+      destruct f as [|f1]; [exact I|].
+      assert (IHl1 : forall cl nl, cgl' l n = Some (cl, nl) -> forall p1, code_at Cm lab pos cl p1 -> p1 < W ->
+                forall f0, (f0 < f1)%nat -> forall st0, same_store st st0 -> rhs_ok st0 (eval f0 ge l st0) m pos p1 a b inp).
+      { intros cl nl El p1 Hc1 Hp1 f0 Hf0. exact (IHl' cl nl El p1 Hc1 Hp1 f0 ltac:(lia)). }
+      clear IHl IHr IHl'.
+      destruct o; try discriminate.
+      + (* + *)
+        destruct (cgl' l n) as [[cl nl]|] eqn:El; [|discriminate]. cbn [obind] in Hcg.
+        destruct (cg venv pool size nslots aenv rr RB nl off0) as [[cr n2]|] eqn:Ecr; [|discriminate]. cbn [obind] in Hcg.
+        inversion Hcg; subst c n1.
+        change (eval (S f1) ge (EBin Plus l rr) st) with (eval_body (eval f1 ge) (evals f1 ge) (exec f1 ge) ge (EBin Plus l rr) st).
+        cbn [eval_body].
+        pose proof (run_arith ADD Z.add l rr cl nl cr n2 f1 st m pos nxt a b inp (or_introl (conj eq_refl eq_refl)) (IHl1 cl nl eq_refl) Esr Ecr Hc Hp Hn) as R.
+        destruct (operands (evals f1 ge) [l; rr] st) as [vs s1|hc hs|u]; cbn [bind rcase arith_ok rhs_ok] in *; [| exact R | exact I].
+        destruct R as (outs & x & y & b1 & m1 & -> & Hx & Hy & R1 & HR1 & P1 & F1). cbn [int_of binop_ans].
+        destruct (in_int (x + y)) eqn:Ez; [|exact I]. cbn [rhs_ok].
+        exists outs, (x + y), b1, m1. split; [reflexivity|]. split; [exact Ez|]. exact (conj R1 (conj HR1 (conj P1 F1))).
+      + (* - *)
+        destruct (cgl' l n) as [[cl nl]|] eqn:El; [|discriminate]. cbn [obind] in Hcg.
+        destruct (cg venv pool size nslots aenv rr RB nl off0) as [[cr n2]|] eqn:Ecr; [|discriminate]. cbn [obind] in Hcg.
+        inversion Hcg; subst c n1.
+        change (eval (S f1) ge (EBin Minus l rr) st) with (eval_body (eval f1 ge) (evals f1 ge) (exec f1 ge) ge (EBin Minus l rr) st).
+        cbn [eval_body].
+        pose proof (run_arith SUB Z.sub l rr cl nl cr n2 f1 st m pos nxt a b inp (or_intror (conj eq_refl eq_refl)) (IHl1 cl nl eq_refl) Esr Ecr Hc Hp Hn) as R.
+        destruct (operands (evals f1 ge) [l; rr] st) as [vs s1|hc hs|u]; cbn [bind rcase arith_ok rhs_ok] in *; [| exact R | exact I].
+        destruct R as (outs & x & y & b1 & m1 & -> & Hx & Hy & R1 & HR1 & P1 & F1). cbn [int_of binop_ans].
+        destruct (in_int (x - y)) eqn:Ez; [|exact I]. cbn [rhs_ok].
+        exists outs, (x - y), b1, m1. split; [reflexivity|]. split; [exact Ez|]. exact (conj R1 (conj HR1 (conj P1 F1))).
+      + (* = *)
+        change (eval (S f1) ge (EBin Eq l rr) st) with (eval_body (eval f1 ge) (evals f1 ge) (exec f1 ge) ge (EBin Eq l rr) st).
+        cbn [eval_body].
+        destruct (is_zero rr) eqn:Zr.
+        * destruct (cgl' l n) as [[cl nl]|] eqn:El; [|discriminate]. cbn [obind] in Hcg. inversion Hcg; subst c n1.
+          apply code_at_app in Hc. destruct Hc as (p1 & Hc1 & Hc2).
+          pose proof (code_at_le _ _ _ _ _ Hc1) as L1. pose proof (code_at_le _ _ _ _ _ Hc2) as L2.
+          destruct (zero_cg rr nl Zr) as (cr & Ecr).
+          pose proof (run_left l rr nl cr nl f1 st m pos p1 a b inp (IHl1 cl nl eq_refl p1 Hc1 ltac:(lia)) Esr Ecr) as R.
+          destruct (operands (evals f1 ge) [l; rr] st) as [vs s1|hc hs|u]; cbn [bind rcase opnds_ok rhs_ok] in *; [| exact R | exact I].
+          destruct R as (outs & x & y & b1 & m1 & -> & Hx & Hy & R1 & HR1 & P1 & F1 & _ & Hy0). rewrite (Hy0 Zr). cbn [int_of binop_ans rhs_ok].
+          pose proof (run_btail_brz nl m1 p1 nxt (x mod W) b1 (adv inp s1) (proj1 HR1) Hc2 ltac:(lia) Hn) as T2. rewrite (w_zero x Hx) in T2.
+          exists outs, (of_bool (x =? 0)), b1, m1. split; [reflexivity|]. split; [apply of_bool_int|]. rewrite of_bool_mod.
+          split; [|exact (conj HR1 (conj P1 F1))]. eapply runs_taus; [exact R1 | exact T2].
+        * destruct (cgl' l n) as [[cl nl]|] eqn:El; [|discriminate]. cbn [obind] in Hcg.
+          destruct (cg venv pool size nslots aenv rr RB nl off0) as [[cr n2]|] eqn:Ecr; [|discriminate]. cbn [obind] in Hcg.
+          inversion Hcg; subst c n1.
+          apply code_at_app in Hc. destruct Hc as (p1 & Hc1 & Hc2).
+          pose proof (code_at_le _ _ _ _ _ Hc1) as L1. pose proof (code_at_le _ _ _ _ _ Hc2) as L2.
+          pose proof (run_arith SUB Z.sub l rr cl nl cr n2 f1 st m pos p1 a b inp (or_intror (conj eq_refl eq_refl)) (IHl1 cl nl eq_refl) Esr Ecr Hc1 Hp ltac:(lia)) as R.
+          destruct (operands (evals f1 ge) [l; rr] st) as [vs s1|hc hs|u]; cbn [bind rcase arith_ok rhs_ok] in *; [| exact R | exact I].
+          destruct R as (outs & x & y & b1 & m1 & -> & Hx & Hy & R1 & HR1 & P1 & F1). cbn [int_of binop_ans rhs_ok].
+          pose proof (run_btail_brz n2 m1 p1 nxt ((x - y) mod W) b1 (adv inp s1) (proj1 HR1) Hc2 ltac:(lia) Hn) as T2. rewrite (w_eq x y Hx Hy) in T2.
+          exists outs, (of_bool (x =? y)), b1, m1. split; [reflexivity|]. split; [apply of_bool_int|]. rewrite of_bool_mod.
+          split; [|exact (conj HR1 (conj P1 F1))]. eapply runs_taus; [exact R1 | exact T2].
+      + (* < *)
+        change (eval (S f1) ge (EBin Ls l rr) st) with (eval_body (eval f1 ge) (evals f1 ge) (exec f1 ge) ge (EBin Ls l rr) st).
+        cbn [eval_body].
+        destruct (is_zero rr) eqn:Zr.
+        * destruct (cgl' l n) as [[cl nl]|] eqn:El; [|discriminate]. cbn [obind] in Hcg. inversion Hcg; subst c n1.
+          apply code_at_app in Hc. destruct Hc as (p1 & Hc1 & Hc2).
+          pose proof (code_at_le _ _ _ _ _ Hc1) as L1. pose proof (code_at_le _ _ _ _ _ Hc2) as L2.
+          destruct (zero_cg rr nl Zr) as (cr & Ecr).
+          pose proof (run_left l rr nl cr nl f1 st m pos p1 a b inp (IHl1 cl nl eq_refl p1 Hc1 ltac:(lia)) Esr Ecr) as R.
+          destruct (operands (evals f1 ge) [l; rr] st) as [vs s1|hc hs|u]; cbn [bind rcase opnds_ok rhs_ok] in *; [| exact R | exact I].
+          destruct R as (outs & x & y & b1 & m1 & -> & Hx & Hy & R1 & HR1 & P1 & F1 & _ & Hy0). rewrite (Hy0 Zr). cbn [int_of binop_ans].
+          destruct (in_int (x - 0) && in_int (0 - x)) eqn:Ed; [|exact I]. cbn [rhs_ok].
+          pose proof (run_btail_brn nl m1 p1 nxt (x mod W) b1 (adv inp s1) (proj1 HR1) Hc2 ltac:(lia) Hn) as T2. rewrite (w_neg x Hx) in T2.
+          exists outs, (of_bool (x <? 0)), b1, m1. split; [reflexivity|]. split; [apply of_bool_int|]. rewrite of_bool_mod.
+          split; [|exact (conj HR1 (conj P1 F1))]. eapply runs_taus; [exact R1 | exact T2].
+        * destruct (cgl' l n) as [[cl nl]|] eqn:El; [|discriminate]. cbn [obind] in Hcg.
+          destruct (cg venv pool size nslots aenv rr RB nl off0) as [[cr n2]|] eqn:Ecr; [|discriminate]. cbn [obind] in Hcg.
+          inversion Hcg; subst c n1.
+          apply code_at_app in Hc. destruct Hc as (p1 & Hc1 & Hc2).
+          pose proof (code_at_le _ _ _ _ _ Hc1) as L1. pose proof (code_at_le _ _ _ _ _ Hc2) as L2.
+          pose proof (run_arith SUB Z.sub l rr cl nl cr n2 f1 st m pos p1 a b inp (or_intror (conj eq_refl eq_refl)) (IHl1 cl nl eq_refl) Esr Ecr Hc1 Hp ltac:(lia)) as R.
+          destruct (operands (evals f1 ge) [l; rr] st) as [vs s1|hc hs|u]; cbn [bind rcase arith_ok rhs_ok] in *; [| exact R | exact I].
+          destruct R as (outs & x & y & b1 & m1 & -> & Hx & Hy & R1 & HR1 & P1 & F1). cbn [int_of binop_ans].
+          destruct (in_int (x - y) && in_int (y - x)) eqn:Ed; [|exact I]. cbn [rhs_ok].
+          apply andb_prop in Ed. destruct Ed as [Ed _].
+          pose proof (run_btail_brn n2 m1 p1 nxt ((x - y) mod W) b1 (adv inp s1) (proj1 HR1) Hc2 ltac:(lia) Hn) as T2. rewrite (w_neg (x - y) Ed) in T2.
+          exists outs, (of_bool (x <? y)), b1, m1. split; [reflexivity|]. split; [apply of_bool_int|]. rewrite of_bool_mod.
+          replace (x <? y) with (x - y <? 0) by (destruct (x - y <? 0) eqn:E1; [apply Z.ltb_lt in E1; symmetry; apply Z.ltb_lt; lia | apply Z.ltb_ge in E1; symmetry; apply Z.ltb_ge; lia]).
+          split; [|exact (conj HR1 (conj P1 F1))]. eapply runs_taus; [exact R1 | exact T2].
   Qed.
 
   (* ---- the theorem *)
   Theorem stmt_correct_calls : forall f, (forall f', (f' < f)%nat -> call_spec f') -> stmt_ok f.
   Proof.
-    induction f as [f IH0] using lt_wf_ind. intros Hcall s n code n' st Hcs m pos nxt a b inp HR Hc Hp Hn Hex.
+    induction f as [f IH0] using lt_wf_ind. intros Hcall s n code n' st Hcs m pos nxt a b inp HR Hcon Hc Hp Hn Hex.
     destruct f as [|f0]; [exact I|].
     assert (IH : forall f1, (f1 < S f0)%nat -> stmt_ok f1).
     { intros f1 Hf1. apply IH0; [exact Hf1|]. intros f' Hf'. apply Hcall. lia. }
@@ -978,12 +1428,13 @@ Section Correct.
     change (set_budget st (budget st - 1)) with (ticked st).
     apply (result_ok_start st (ticked st)); [apply same_store_ticked|].
     assert (HR0 : Rel (ticked st) m) by (eapply Rel_same; [apply same_store_ticked | exact HR]).
+    change (console inp = input (ticked st)) in Hcon.
     set (st0 := ticked st) in *. clearbody st0. clear HR.
     pose proof Hcs as Hcs0.
     destruct s as [| |e|c t e|c bd|ss|x e|x i e|g args|sn args]; cbn [cs] in Hcs; try discriminate.
     - (* skip *)
       inversion Hcs; subst code n'. cbn [code_at] in Hc. subst nxt.
-      exists [], a, b, m. exact (conj (runs_refl _ _) (conj HR0 (conj (post_refl st0) (frame_only_refl m)))).
+      exists [], a, b, m. exact (conj (taus_adv _ _ _ _ Hcon (taus_refl _ _)) (conj HR0 (conj (post_refl st0) (frame_only_refl m)))).
     - (* stop *)
       inversion Hcs; subst code n'. destruct HR0 as (HC & H1 & _).
       one_instr Hc p1 Hi1. one_instr Hc p2 Hi2. one_instr Hc p3 Hi3. one_instr Hc p4 Hi4. subst p4.
@@ -999,18 +1450,18 @@ Section Correct.
       assert (Hin2 : in_mem (wrap (rd m2 1 + 2)) = true) by (rewrite H12, (in_mem_wrap _ Sin); exact Sin).
       pose proof (exec_svc_exit Cm lab m2 p3 nxt sp inp Hi4 HC2 Hin2) as T4.
       rewrite H12, (in_mem_wrap _ Sin) in T4. unfold m2 in T4 at 2. rewrite rd_wr_same in T4.
-      exists []. split; [|apply post_hpost, post_refl]. cbn [map]. change (0 mod W) with 0.
+      exists []. split; [|apply post_hpost, post_refl]. change (0 mod W) with 0. rewrite (adv_id _ _ Hcon).
       eapply taus_exits; [exact T1|]. eapply taus_exits; [exact T2|]. eapply taus_exits; [exact T3|]. exact T4.
     - (* return e *)
-      destruct (cgx' e n) as [[c n1]|] eqn:Ec; [|discriminate]. cbn [obind] in Hcs. inversion Hcs; subst code n'.
+      destruct (cgl' e n) as [[c n1]|] eqn:Ec; [|discriminate]. cbn [obind] in Hcs. inversion Hcs; subst code n'.
       apply code_at_app in Hc. destruct Hc as (p1 & Hc1 & Hc2). one_instr Hc2 p2 Hi2. subst p2.
       pose proof (code_at_le _ _ _ _ _ Hc1) as L1. pose proof (instr_at_le _ _ _ _ _ Hi2) as L2.
-      pose proof (run_cgx (S f0) Hcall e n c n1 f0 st0 m pos p1 a b inp ltac:(lia) Ec HR0 Hc1 Hp ltac:(lia)) as R.
+      pose proof (run_cgl (S f0) Hcall e n c n1 f0 st0 m pos p1 a b inp ltac:(lia) Ec HR0 Hcon Hc1 Hp ltac:(lia)) as R.
       destruct (eval f0 ge e st0) as [v s1|hc hs|u]; cbn [bind rcase rhs_ok result_ok] in *; [| exact R | exact I].
       destruct R as (outs & z & b1 & m1 & -> & Hz & R1 & HR1 & P1 & F1).
       exists outs, z, b1, m1. split; [reflexivity|]. split; [exact Hz|]. split; [|exact (conj HR1 (conj P1 F1))].
       eapply runs_taus; [exact R1|]. destruct HR1 as (HC1 & _).
-      exact (exec_br Cm lab m1 p1 nxt exitl (z mod W) b1 inp Hi2 HC1 Hn Hex).
+      exact (exec_br Cm lab m1 p1 nxt exitl (z mod W) b1 (adv inp s1) Hi2 HC1 Hn Hex).
     - (* if *)
       destruct (is_skip t && is_skip e) eqn:Ebb.
       + (* both branches are skip: no code *)
@@ -1023,36 +1474,32 @@ Section Correct.
         assert (Hsk : forall fl, match fl with true | false => exec f0 ge SSkip s1 end = exec f0 ge SSkip s1) by (intros []; reflexivity).
         assert (Hskip : result_ok st0 (exec f0 ge SSkip s1) m pos pos a b inp).
         { apply (result_ok_start st0 s1); [exact Hss|].
-          exact (IH f0 ltac:(lia) SSkip n [] n s1 eq_refl m pos pos a b inp (Rel_same _ _ _ Hss HR0) eq_refl Hp Hn Hex). }
+         exact (IH f0 ltac:(lia) SSkip n [] n s1 eq_refl m pos pos a b inp (Rel_same _ _ _ Hss HR0) (con_same _ _ _ Hcon Hss) eq_refl Hp Hn Hex). }
         destruct (z =? 0); [exact Hskip|]. destruct (z =? 1); [exact Hskip | exact I].
       + destruct (is_skip e) eqn:Ese.
         * (* no else branch:  c; BRZ end; t; end: *)
-          destruct (cge' c (n + 1)) as [[cc n1]|] eqn:Ecc; [|discriminate]. cbn [obind] in Hcs.
+          destruct (cgl' c (n + 1)) as [[cc n1]|] eqn:Ecc; [|discriminate]. cbn [obind] in Hcs.
           destruct (cs' t n1) as [[ct n2]|] eqn:Ect; [|discriminate]. cbn [obind] in Hcs. inversion Hcs; subst code n'.
           apply code_at_app in Hc. destruct Hc as (p1 & Hc1 & Hc). cbn [app] in Hc. one_instr Hc p2 Hi2.
           apply code_at_app in Hc. destruct Hc as (p3 & Hc3 & Hc). one_instr Hc p4 Hi4. subst p4.
           cbn [instr_at] in Hi4. destruct Hi4 as [E4 Ln]. subst p3.
           pose proof (code_at_le _ _ _ _ _ Hc1) as L1. pose proof (code_at_le _ _ _ _ _ Hc3) as L3. pose proof (instr_at_le _ _ _ _ _ Hi2) as L2.
           destruct e; try discriminate.
-          destruct (eval f0 ge c st0) as [v s1|hc hs|u] eqn:Ece; cbn [bind rcase]; [| |exact I].
-          2:{ exfalso. exact (pure_no_halt ge c (cge_pure _ _ _ Ecc) _ _ _ _ Ece). }
-          destruct (run_expr c (n + 1) cc n1 f0 st0 v s1 m Ecc Ece HR0) as [Hss (z & -> & Hz & Hrun)].
-          destruct (Hrun pos p1 a b inp Hc1 Hp ltac:(lia)) as (b1 & m1 & T1 & HR1 & Hk1).
-          pose proof (Rel_same _ _ _ Hss HR1) as HR1'. destruct HR1 as (HC1 & _).
-          pose proof (exec_brz Cm lab m1 p1 p2 n (z mod W) b1 inp Hi2 HC1 ltac:(lia) ltac:(lia)) as T2.
+          pose proof (run_cgl (S f0) Hcall c (n + 1) cc n1 f0 st0 m pos p1 a b inp ltac:(lia) Ecc HR0 Hcon Hc1 Hp ltac:(lia)) as R.
+          destruct (eval f0 ge c st0) as [v s1|hc hs|u]; cbn [bind rcase rhs_ok result_ok] in *; [| exact R | exact I].
+          destruct R as (outs & z & b1 & m1 & -> & Hz & R1 & HR1' & P1 & F1). pose proof HR1' as (HC1 & _).
+          pose proof (exec_brz Cm lab m1 p1 p2 n (z mod W) b1 (adv inp s1) Hi2 HC1 ltac:(lia) ltac:(lia)) as T2.
           unfold bool_of, int_of. destruct (z =? 0) eqn:E0; [|destruct (z =? 1) eqn:E1; [|exact I]].
           -- (* false: to the end label *)
              apply Z.eqb_eq in E0. subst z. change (0 mod W =? 0) with true in T2. cbv iota in T2. rewrite Ln in T2.
-             apply (result_ok_start st0 s1); [exact Hss|].
-             eapply result_ok_after_taus; [eapply (taus_trans inp _ _ _ T1 T2) | apply frame_only_T; exact Hk1|].
-             exact (IH f0 ltac:(lia) SSkip n [] n s1 eq_refl m1 nxt nxt (0 mod W) b1 inp HR1' eq_refl ltac:(lia) Hn Hex).
+             eapply result_ok_after; [eapply runs_taus; [exact R1 | exact T2] | exact P1 | exact F1|].
+             exact (IH f0 ltac:(lia) SSkip n [] n s1 eq_refl m1 nxt nxt (0 mod W) b1 (adv inp s1) HR1' eq_refl eq_refl ltac:(lia) Hn Hex).
           -- apply Z.eqb_eq in E1. subst z. change (1 mod W =? 0) with false in T2. cbv iota in T2.
-             apply (result_ok_start st0 s1); [exact Hss|].
-             eapply result_ok_after_taus; [eapply (taus_trans inp _ _ _ T1 T2) | apply frame_only_T; exact Hk1|].
-             exact (IH f0 ltac:(lia) t n1 ct n2 s1 Ect m1 p2 nxt (1 mod W) b1 inp HR1' Hc3 ltac:(lia) Hn Hex).
+             eapply result_ok_after; [eapply runs_taus; [exact R1 | exact T2] | exact P1 | exact F1|].
+             exact (IH f0 ltac:(lia) t n1 ct n2 s1 Ect m1 p2 nxt (1 mod W) b1 (adv inp s1) HR1' eq_refl Hc3 ltac:(lia) Hn Hex).
         * destruct (is_skip t) eqn:Est.
           -- (* no then branch:  c; BRZ else; BR end; else: e; end: *)
-             destruct (cge' c (n + 2)) as [[cc n1]|] eqn:Ecc; [|discriminate]. cbn [obind] in Hcs.
+             destruct (cgl' c (n + 2)) as [[cc n1]|] eqn:Ecc; [|discriminate]. cbn [obind] in Hcs.
              destruct (cs' e n1) as [[ce n2]|] eqn:Ece'; [|discriminate]. cbn [obind] in Hcs. inversion Hcs; subst code n'.
              apply code_at_app in Hc. destruct Hc as (p1 & Hc1 & Hc). cbn [app] in Hc.
              one_instr Hc p2 Hi2. one_instr Hc p3 Hi3. one_instr Hc p4 Hi4.
@@ -1061,24 +1508,20 @@ Section Correct.
              pose proof (code_at_le _ _ _ _ _ Hc1) as L1. pose proof (code_at_le _ _ _ _ _ Hc5) as L5.
              pose proof (instr_at_le _ _ _ _ _ Hi2) as L2. pose proof (instr_at_le _ _ _ _ _ Hi3) as L3.
              destruct t; try discriminate.
-             destruct (eval f0 ge c st0) as [v s1|hc hs|u] eqn:Ece; cbn [bind rcase]; [| |exact I].
-             2:{ exfalso. exact (pure_no_halt ge c (cge_pure _ _ _ Ecc) _ _ _ _ Ece). }
-             destruct (run_expr c (n + 2) cc n1 f0 st0 v s1 m Ecc Ece HR0) as [Hss (z & -> & Hz & Hrun)].
-             destruct (Hrun pos p1 a b inp Hc1 Hp ltac:(lia)) as (b1 & m1 & T1 & HR1 & Hk1).
-             pose proof (Rel_same _ _ _ Hss HR1) as HR1'. destruct HR1 as (HC1 & _).
-             pose proof (exec_brz Cm lab m1 p1 p2 n (z mod W) b1 inp Hi2 HC1 ltac:(lia) ltac:(lia)) as T2.
+             pose proof (run_cgl (S f0) Hcall c (n + 2) cc n1 f0 st0 m pos p1 a b inp ltac:(lia) Ecc HR0 Hcon Hc1 Hp ltac:(lia)) as R.
+             destruct (eval f0 ge c st0) as [v s1|hc hs|u]; cbn [bind rcase rhs_ok result_ok] in *; [| exact R | exact I].
+             destruct R as (outs & z & b1 & m1 & -> & Hz & R1 & HR1' & P1 & F1). pose proof HR1' as (HC1 & _).
+             pose proof (exec_brz Cm lab m1 p1 p2 n (z mod W) b1 (adv inp s1) Hi2 HC1 ltac:(lia) ltac:(lia)) as T2.
              unfold bool_of, int_of. destruct (z =? 0) eqn:E0; [|destruct (z =? 1) eqn:E1; [|exact I]].
              ++ apply Z.eqb_eq in E0. subst z. change (0 mod W =? 0) with true in T2. cbv iota in T2. rewrite Lf in T2.
-                apply (result_ok_start st0 s1); [exact Hss|].
-                eapply result_ok_after_taus; [eapply (taus_trans inp _ _ _ T1 T2) | apply frame_only_T; exact Hk1|].
-                exact (IH f0 ltac:(lia) e n1 ce n2 s1 Ece' m1 p3 nxt (0 mod W) b1 inp HR1' Hc5 ltac:(lia) Hn Hex).
+                eapply result_ok_after; [eapply runs_taus; [exact R1 | exact T2] | exact P1 | exact F1|].
+                exact (IH f0 ltac:(lia) e n1 ce n2 s1 Ece' m1 p3 nxt (0 mod W) b1 (adv inp s1) HR1' eq_refl Hc5 ltac:(lia) Hn Hex).
              ++ apply Z.eqb_eq in E1. subst z. change (1 mod W =? 0) with false in T2. cbv iota in T2.
-                pose proof (exec_br Cm lab m1 p2 p3 (n + 1) (1 mod W) b1 inp Hi3 HC1 ltac:(lia) ltac:(lia)) as T3. rewrite Le in T3.
-                apply (result_ok_start st0 s1); [exact Hss|].
-                eapply result_ok_after_taus; [eapply (taus_trans inp _ _ _ T1 (taus_trans inp _ _ _ T2 T3)) | apply frame_only_T; exact Hk1|].
-                exact (IH f0 ltac:(lia) SSkip n [] n s1 eq_refl m1 nxt nxt (1 mod W) b1 inp HR1' eq_refl ltac:(lia) Hn Hex).
+                pose proof (exec_br Cm lab m1 p2 p3 (n + 1) (1 mod W) b1 (adv inp s1) Hi3 HC1 ltac:(lia) ltac:(lia)) as T3. rewrite Le in T3.
+                eapply result_ok_after; [eapply runs_taus; [exact R1 | exact (taus_trans _ _ _ _ T2 T3)] | exact P1 | exact F1|].
+                exact (IH f0 ltac:(lia) SSkip n [] n s1 eq_refl m1 nxt nxt (1 mod W) b1 (adv inp s1) HR1' eq_refl eq_refl ltac:(lia) Hn Hex).
           -- (* both branches:  c; BRZ else; t; BR end; else: e; end: *)
-             destruct (cge' c (n + 2)) as [[cc n1]|] eqn:Ecc; [|discriminate]. cbn [obind] in Hcs.
+             destruct (cgl' c (n + 2)) as [[cc n1]|] eqn:Ecc; [|discriminate]. cbn [obind] in Hcs.
              destruct (cs' t n1) as [[ct n2]|] eqn:Ect; [|discriminate]. cbn [obind] in Hcs.
              destruct (cs' e n2) as [[ce n3]|] eqn:Ece'; [|discriminate]. cbn [obind] in Hcs. inversion Hcs; subst code n'.
              apply code_at_app in Hc. destruct Hc as (p1 & Hc1 & Hc). cbn [app] in Hc. one_instr Hc p2 Hi2.
@@ -1087,30 +1530,26 @@ Section Correct.
              cbn [instr_at] in Hi5, Hi7. destruct Hi5 as [E5 Lf]. destruct Hi7 as [E7 Le]. subst p5 p6.
              pose proof (code_at_le _ _ _ _ _ Hc1) as L1. pose proof (code_at_le _ _ _ _ _ Hc3) as L3. pose proof (code_at_le _ _ _ _ _ Hc6) as L6.
              pose proof (instr_at_le _ _ _ _ _ Hi2) as L2. pose proof (instr_at_le _ _ _ _ _ Hi4) as L4.
-             destruct (eval f0 ge c st0) as [v s1|hc hs|u] eqn:Ece; cbn [bind rcase]; [| |exact I].
-             2:{ exfalso. exact (pure_no_halt ge c (cge_pure _ _ _ Ecc) _ _ _ _ Ece). }
-             destruct (run_expr c (n + 2) cc n1 f0 st0 v s1 m Ecc Ece HR0) as [Hss (z & -> & Hz & Hrun)].
-             destruct (Hrun pos p1 a b inp Hc1 Hp ltac:(lia)) as (b1 & m1 & T1 & HR1 & Hk1).
-             pose proof (Rel_same _ _ _ Hss HR1) as HR1'. destruct HR1 as (HC1 & _).
-             pose proof (exec_brz Cm lab m1 p1 p2 n (z mod W) b1 inp Hi2 HC1 ltac:(lia) ltac:(lia)) as T2.
+             pose proof (run_cgl (S f0) Hcall c (n + 2) cc n1 f0 st0 m pos p1 a b inp ltac:(lia) Ecc HR0 Hcon Hc1 Hp ltac:(lia)) as R.
+             destruct (eval f0 ge c st0) as [v s1|hc hs|u]; cbn [bind rcase rhs_ok result_ok] in *; [| exact R | exact I].
+             destruct R as (outs & z & b1 & m1 & -> & Hz & R1 & HR1' & P1 & F1). pose proof HR1' as (HC1 & _).
+             pose proof (exec_brz Cm lab m1 p1 p2 n (z mod W) b1 (adv inp s1) Hi2 HC1 ltac:(lia) ltac:(lia)) as T2.
              unfold bool_of, int_of. destruct (z =? 0) eqn:E0; [|destruct (z =? 1) eqn:E1; [|exact I]].
              ++ apply Z.eqb_eq in E0. subst z. change (0 mod W =? 0) with true in T2. cbv iota in T2. rewrite Lf in T2.
-                apply (result_ok_start st0 s1); [exact Hss|].
-                eapply result_ok_after_taus; [eapply (taus_trans inp _ _ _ T1 T2) | apply frame_only_T; exact Hk1|].
-                exact (IH f0 ltac:(lia) e n2 ce n3 s1 Ece' m1 p4 nxt (0 mod W) b1 inp HR1' Hc6 ltac:(lia) Hn Hex).
+                eapply result_ok_after; [eapply runs_taus; [exact R1 | exact T2] | exact P1 | exact F1|].
+                exact (IH f0 ltac:(lia) e n2 ce n3 s1 Ece' m1 p4 nxt (0 mod W) b1 (adv inp s1) HR1' eq_refl Hc6 ltac:(lia) Hn Hex).
              ++ apply Z.eqb_eq in E1. subst z. change (1 mod W =? 0) with false in T2. cbv iota in T2.
-                apply (result_ok_start st0 s1); [exact Hss|].
-                eapply result_ok_after_taus; [eapply (taus_trans inp _ _ _ T1 T2) | apply frame_only_T; exact Hk1|].
+                eapply result_ok_after; [eapply runs_taus; [exact R1 | exact T2] | exact P1 | exact F1|].
                 (* the then branch, then BR end *)
-                pose proof (IH f0 ltac:(lia) t n1 ct n2 s1 Ect m1 p2 p3 (1 mod W) b1 inp HR1' Hc3 ltac:(lia) ltac:(lia) Hex) as Ht.
+                pose proof (IH f0 ltac:(lia) t n1 ct n2 s1 Ect m1 p2 p3 (1 mod W) b1 (adv inp s1) HR1' eq_refl Hc3 ltac:(lia) ltac:(lia) Hex) as Ht.
                 destruct (exec f0 ge t s1) as [[|rv] st2|hc st2|u]; cbn [result_ok] in Ht |- *; [| exact Ht | exact Ht | exact I].
                 destruct Ht as (o & a2 & b2 & m2 & R2 & HR2 & P2 & F2).
                 exists o, a2, b2, m2. split; [|exact (conj HR2 (conj P2 F2))].
                 destruct HR2 as (HC2 & _).
-                pose proof (exec_br Cm lab m2 p3 p4 (n + 1) a2 b2 inp Hi4 HC2 ltac:(lia) ltac:(lia)) as T4. rewrite Le in T4.
+                pose proof (exec_br Cm lab m2 p3 p4 (n + 1) a2 b2 (adv inp st2) Hi4 HC2 ltac:(lia) ltac:(lia)) as T4. rewrite Le in T4.
                 eapply runs_taus; eassumption.
     - (* while:  begin: c; BRZ end; body; BR begin; end: *)
-      destruct (cge' c (n + 2)) as [[cc n1]|] eqn:Ecc; [|discriminate]. cbn [obind] in Hcs.
+      destruct (cgl' c (n + 2)) as [[cc n1]|] eqn:Ecc; [|discriminate]. cbn [obind] in Hcs.
       destruct (cs' bd n1) as [[cb n2]|] eqn:Ecb; [|discriminate]. cbn [obind] in Hcs. inversion Hcs; subst code n'.
       pose proof Hc as Hc0.
       cbn [app] in Hc. one_instr Hc p0 Hi0. cbn [instr_at] in Hi0. destruct Hi0 as [E0 Lb]. subst p0.
@@ -1119,48 +1558,45 @@ Section Correct.
       cbn [instr_at] in Hi5. destruct Hi5 as [E5 Le]. subst p4.
       pose proof (code_at_le _ _ _ _ _ Hc1) as L1. pose proof (code_at_le _ _ _ _ _ Hc3) as L3.
       pose proof (instr_at_le _ _ _ _ _ Hi2) as L2. pose proof (instr_at_le _ _ _ _ _ Hi4) as L4.
-      destruct (eval f0 ge c st0) as [v s1|hc hs|u] eqn:Ece; cbn [bind rcase]; [| |exact I].
-      2:{ exfalso. exact (pure_no_halt ge c (cge_pure _ _ _ Ecc) _ _ _ _ Ece). }
-      destruct (run_expr c (n + 2) cc n1 f0 st0 v s1 m Ecc Ece HR0) as [Hss (z & -> & Hz & Hrun)].
-      destruct (Hrun pos p1 a b inp Hc1 Hp ltac:(lia)) as (b1 & m1 & T1 & HR1 & Hk1).
-      pose proof (Rel_same _ _ _ Hss HR1) as HR1'. destruct HR1 as (HC1 & _).
-      pose proof (exec_brz Cm lab m1 p1 p2 (n + 1) (z mod W) b1 inp Hi2 HC1 ltac:(lia) ltac:(lia)) as T2.
+      pose proof (run_cgl (S f0) Hcall c (n + 2) cc n1 f0 st0 m pos p1 a b inp ltac:(lia) Ecc HR0 Hcon Hc1 Hp ltac:(lia)) as R.
+      destruct (eval f0 ge c st0) as [v s1|hc hs|u]; cbn [bind rcase rhs_ok result_ok] in *; [| exact R | exact I].
+      destruct R as (outs & z & b1 & m1 & -> & Hz & R1 & HR1' & P1 & F1). pose proof HR1' as (HC1 & _).
+      pose proof (exec_brz Cm lab m1 p1 p2 (n + 1) (z mod W) b1 (adv inp s1) Hi2 HC1 ltac:(lia) ltac:(lia)) as T2.
       unfold bool_of, int_of. destruct (z =? 0) eqn:E0; [|destruct (z =? 1) eqn:E1; [|exact I]].
       + (* the condition is false: leave the loop *)
         apply Z.eqb_eq in E0. subst z. change (0 mod W =? 0) with true in T2. cbv iota in T2. rewrite Le in T2.
-        exists [], (0 mod W), b1, m1. split; [exact (taus_trans inp _ _ _ T1 T2)|]. split; [exact HR1'|]. split; [apply post_same; exact Hss | apply frame_only_T; exact Hk1].
+        exists outs, (0 mod W), b1, m1. split; [eapply runs_taus; [exact R1 | exact T2]|]. split; [exact HR1'|]. split; [exact P1 | exact F1].
       + (* one iteration, then the loop again *)
         apply Z.eqb_eq in E1. subst z. change (1 mod W =? 0) with false in T2. cbv iota in T2.
-        apply (result_ok_start st0 s1); [exact Hss|].
-        eapply result_ok_after_taus; [eapply (taus_trans inp _ _ _ T1 T2) | apply frame_only_T; exact Hk1|].
-        pose proof (IH f0 ltac:(lia) bd n1 cb n2 s1 Ecb m1 p2 p3 (1 mod W) b1 inp HR1' Hc3 ltac:(lia) ltac:(lia) Hex) as Hb.
+        eapply result_ok_after; [eapply runs_taus; [exact R1 | exact T2] | exact P1 | exact F1|].
+        pose proof (IH f0 ltac:(lia) bd n1 cb n2 s1 Ecb m1 p2 p3 (1 mod W) b1 (adv inp s1) HR1' eq_refl Hc3 ltac:(lia) ltac:(lia) Hex) as Hb.
         destruct (exec f0 ge bd s1) as [[|rv] st2|hc st2|u]; cbn [bind rcase]; cbn [result_ok] in Hb; [| exact Hb | exact Hb | exact I].
         destruct Hb as (o & a2 & b2 & m2 & R2 & HR2 & P2 & F2).
         eapply result_ok_after; [|exact P2 | exact F2|].
         * destruct HR2 as (HC2 & _).
-          pose proof (exec_br Cm lab m2 p3 nxt n a2 b2 inp Hi4 HC2 ltac:(lia) ltac:(lia)) as T4. rewrite Lb in T4.
+          pose proof (exec_br Cm lab m2 p3 nxt n a2 b2 (adv inp st2) Hi4 HC2 ltac:(lia) ltac:(lia)) as T4. rewrite Lb in T4.
           eapply runs_taus; eassumption.
-        * exact (IH f0 ltac:(lia) (SWhile c bd) n _ n2 st2 Hcs0 m2 pos nxt a2 b2 inp HR2 Hc0 Hp Hn Hex).
+        * exact (IH f0 ltac:(lia) (SWhile c bd) n _ n2 st2 Hcs0 m2 pos nxt a2 b2 (adv inp st2) HR2 eq_refl Hc0 Hp Hn Hex).
     - (* sequence *)
       rewrite cs_seq in Hcs0.
-      exact (seq_ok (S f0) IH ss f0 ltac:(lia) n code n' st0 Hcs0 m pos nxt a b inp HR0 Hc Hp Hn Hex).
+      exact (seq_ok (S f0) IH ss f0 ltac:(lia) n code n' st0 Hcs0 m pos nxt a b inp HR0 Hcon Hc Hp Hn Hex).
     - (* assignment *)
       destruct (venv x) as [l|] eqn:Ex; [|discriminate]. cbn [obind] in Hcs.
-      destruct (cgx' e n) as [[c n1]|] eqn:Ec; [|discriminate]. cbn [obind] in Hcs. inversion Hcs; subst code n'.
+      destruct (cgl' e n) as [[c n1]|] eqn:Ec; [|discriminate]. cbn [obind] in Hcs. inversion Hcs; subst code n'.
       apply code_at_app in Hc. destruct Hc as (p1 & Hc1 & Hc2).
       pose proof (code_at_le _ _ _ _ _ Hc1) as L1. pose proof (code_at_le _ _ _ _ _ Hc2) as L2.
-      pose proof (run_cgx (S f0) Hcall e n c n1 f0 st0 m pos p1 a b inp ltac:(lia) Ec HR0 Hc1 Hp ltac:(lia)) as R.
+      pose proof (run_cgl (S f0) Hcall e n c n1 f0 st0 m pos p1 a b inp ltac:(lia) Ec HR0 Hcon Hc1 Hp ltac:(lia)) as R.
       destruct (eval f0 ge e st0) as [v s1|hc hs|u]; cbn [bind rcase rhs_ok result_ok] in *; [| exact R | exact I].
       destruct R as (outs & z & b1 & m1 & -> & Hz & R1 & HR1' & P1 & F1).
       pose proof HR1' as (HC1 & H11 & _).
-      destruct (run_store_var l x m1 p1 nxt (z mod W) b1 inp Ex Hc2 HC1 H11 Hn) as (b2 & T2).
+      destruct (run_store_var l x m1 p1 nxt (z mod W) b1 (adv inp s1) Ex Hc2 HC1 H11 Hn) as (b2 & T2).
       destruct (Hvar x l Ex) as (Hin & _).
-      destruct (assign_ok x l z s1 m1 (wr m1 (addr_of l) (z mod W)) Ex Hz HR1') as (st' & Has & HR' & Hpost).
+      destruct (assign_ok x l z s1 m1 (wr m1 (addr_of l) (z mod W)) Ex Hz HR1') as (st' & Has & HR' & Hpost & Hinp').
       { apply rd_wr_same. }
       { intros y Hy Hne. apply rd_wr_other; [exact (proj1 (in_mem_range _ Hin)) | exact Hy | intros Heq; exact (Hne (eq_sym Heq))]. }
       cbn [int_of]. rewrite Has. cbn [result_ok].
       exists outs, (z mod W), b2, (wr m1 (addr_of l) (z mod W)). split; [|split; [|split]].
-      + eapply runs_taus; eassumption.
+      + rewrite (adv_eq inp _ _ Hinp'). eapply runs_taus; eassumption.
       + exact HR'.
       + pose proof (post_trans _ _ _ _ _ P1 Hpost) as Q. rewrite app_nil_r in Q. exact Q.
       + eapply frame_only_trans; [exact F1 | eapply frame_only_wr_var; exact Ex].
@@ -1259,7 +1695,9 @@ Section Correct.
       set (m4 := wr m3 (abase g + ix) (v mod W)) in *.
       cbn [result_ok].
       exists [], (v mod W), (abase g + ix), m4. split; [|split; [|split]].
-      + cbn [map]. eapply taus_trans; [exact T1|]. eapply taus_trans; [exact T2|]. eapply taus_trans; [exact T3|].
+      + assert (Sall : same_store st0 s1) by (eapply same_store_trans; [exact S0|]; eapply same_store_trans; [exact Hss1|]; eapply same_store_trans; [exact S1|]; eapply same_store_trans; [exact Hss2 | exact S2]).
+        apply taus_adv; [exact (con_same _ _ _ Hcon Sall)|].
+        eapply taus_trans; [exact T1|]. eapply taus_trans; [exact T2|]. eapply taus_trans; [exact T3|].
         eapply taus_trans; [exact T4|]. eapply taus_trans; [exact T5|]. eapply taus_trans; [exact T6|].
         eapply taus_trans; [exact T7 | exact T8].
       + assert (HRs : Rel s1 m3) by (eapply Rel_same; [|exact HR3]; eapply same_store_trans; [exact Hss2 | exact S2]).
@@ -1285,7 +1723,7 @@ Section Correct.
       destruct (cargs' args 1 n) as [[c n1]|] eqn:Ec; [|discriminate]. cbn [obind] in Hcs. inversion Hcs; subst code n'.
       destruct (call_is_proc g pi st0 m Epi HR0) as [-> | ->]; [|exact I].
       rewrite <- Hko in Ec, Eog.
-      pose proof (run_call (S f0) Hcall g pi args n c n1 f0 st0 m pos nxt a b inp ltac:(lia) Epi ltac:(lia) Ec HR0 Hc Hp Hn) as R.
+      pose proof (run_call (S f0) Hcall g pi args n c n1 f0 st0 m pos nxt a b inp ltac:(lia) Epi ltac:(lia) Ec HR0 Hcon Hc Hp Hn) as R.
       rewrite Eisf in R.
       destruct (operands (evals f0 ge) args st0) as [vs s1|hc hs|u]; cbn [bind rcase] in *; [| exact R | exact I].
       destruct (invoke (exec f0 ge) ge false g vs s1) as [rv st2|hc st2|u]; cbn [bind rcase result_ok ret_ok] in *; [| exact R | exact I].
@@ -1325,9 +1763,10 @@ Section Correct.
         pose proof (exec_svc_exit Cm lab m2 p4 p5 sp inp Hi5 HC2 Hin2) as T4.
         rewrite H12, (in_mem_wrap _ Oin) in T4. unfold m2 in T4 at 2. rewrite rd_wr_same in T4.
         cbn [do_sys int_of bind rcase result_ok].
+        assert (Sall : same_store st0 s1) by (eapply same_store_trans; [exact S0|]; eapply same_store_trans; [exact Hss | exact S1]).
         exists []. split.
-        * cbn [map]. eapply taus_exits; [exact T1|]. eapply taus_exits; [exact T2|]. eapply taus_exits; [exact T3|]. exact T4.
-        * apply post_hpost, post_same. eapply same_store_trans; [exact S0|]. eapply same_store_trans; [exact Hss | exact S1].
+        * rewrite (adv_id _ _ (con_same _ _ _ Hcon Sall)). eapply taus_exits; [exact T1|]. eapply taus_exits; [exact T2|]. eapply taus_exits; [exact T3|]. exact T4.
+        * apply post_hpost, post_same. exact Sall.
       + (* put: 1(e, stream) *)
         destruct args as [|e [|es [|? ?]]]; try discriminate.
         destruct (4 <=? og) eqn:Eog; [|discriminate]. apply Z.leb_le in Eog.
@@ -1383,8 +1822,10 @@ Section Correct.
         pose proof (exec_instr Cm lab m4 p7 nxt (LDAI 1) sp sp inp eq_refl Hi8 HC4 R8 Hn) as T8.
         cbn [sem fst snd] in T8.
         cbn [do_sys int_of bind rcase result_ok].
-        exists [(y mod 4294967296, x mod 256)], (rd m4 (wrap (sp + 1))), sp, m4. split; [|split; [|split]].
-        * cbn [map wr_ev fst snd]. change 4294967296 with W.
+        assert (Sall : same_store st0 s1) by (eapply same_store_trans; [exact S0|]; eapply same_store_trans; [exact Hss1|]; eapply same_store_trans; [exact S1|]; eapply same_store_trans; [exact Hss2 | exact S2]).
+        exists [Write (x mod 256) (y mod 4294967296)], (rd m4 (wrap (sp + 1))), sp, m4. split; [|split; [|split]].
+        * change 4294967296 with W.
+          replace (adv inp (emit (y mod W) (x mod 256) s1)) with inp by (symmetry; apply adv_id; exact (con_same _ _ _ Hcon Sall)).
           eapply taus_runs; [exact T1|]. eapply taus_runs; [exact T2|]. eapply taus_runs; [exact T3|].
           eapply taus_runs; [exact T4|]. eapply taus_runs; [exact T5|].
           eapply runs_taus; [exact T6|]. eapply taus_trans; [exact T7 | exact T8].
@@ -1408,13 +1849,13 @@ Section Correct.
   Corollary stmt_normal : forall f, stmt_ok f ->
     forall s n code n' st st', cs' s n = Some (code, n') ->
     exec f ge s st = Ret Normal st' ->
-    forall m pos nxt a b inp, Rel st m -> code_at Cm lab pos code nxt ->
+    forall m pos nxt a b inp, Rel st m -> console inp = input st -> code_at Cm lab pos code nxt ->
     0 <= pos -> nxt < W -> 0 <= lab exitl < W ->
     exists outs a' b' m',
-      runs inp (mk pos a b 0 m) (map wr_ev outs) inp (mk nxt a' b' 0 m') /\ Rel st' m' /\ post st st' outs /\ frame_only m m'.
+      runs inp (mk pos a b 0 m) outs (adv inp st') (mk nxt a' b' 0 m') /\ Rel st' m' /\ post st st' outs /\ frame_only m m'.
   Proof.
-    intros f H s n code n' st st' Hcs He m pos nxt a b inp HR Hc Hp Hn Hx.
-    pose proof (H s n code n' st Hcs m pos nxt a b inp HR Hc Hp Hn Hx) as R. rewrite He in R. exact R.
+    intros f H s n code n' st st' Hcs He m pos nxt a b inp HR Hcon Hc Hp Hn Hx.
+    pose proof (H s n code n' st Hcs m pos nxt a b inp HR Hcon Hc Hp Hn Hx) as R. rewrite He in R. exact R.
   Qed.
 
   (* C08 at statement granularity: when the code of a statement has run to its end, the stack pointer word holds
@@ -1424,17 +1865,17 @@ Section Correct.
   Corollary frame_discipline : forall f, stmt_ok f ->
     forall s n code n' st st', cs' s n = Some (code, n') ->
     exec f ge s st = Ret Normal st' ->
-    forall m pos nxt a b inp, Rel st m -> code_at Cm lab pos code nxt ->
+    forall m pos nxt a b inp, Rel st m -> console inp = input st -> code_at Cm lab pos code nxt ->
     0 <= pos -> nxt < W -> 0 <= lab exitl < W ->
     exists evs a' b' m',
-      runs inp (mk pos a b 0 m) evs inp (mk nxt a' b' 0 m') /\
+      runs inp (mk pos a b 0 m) evs (adv inp st') (mk nxt a' b' 0 m') /\
       rd m' 1 = rd m 1 /\
       (forall x, 0 <= x -> P x -> rd m' x = rd m x) /\
       (forall x, 0 <= x -> ~ scratch x -> ~ var_word x -> rd m' x = rd m x).
   Proof.
-    intros f H s n code n' st st' Hcs He m pos nxt a b inp HR Hc Hp Hn Hx.
-    destruct (stmt_normal f H s n code n' st st' Hcs He m pos nxt a b inp HR Hc Hp Hn Hx) as (o & a' & b' & m' & R & HR' & _ & F).
-    exists (map wr_ev o), a', b', m'. split; [exact R|].
+    intros f H s n code n' st st' Hcs He m pos nxt a b inp HR Hcon Hc Hp Hn Hx.
+    destruct (stmt_normal f H s n code n' st st' Hcs He m pos nxt a b inp HR Hcon Hc Hp Hn Hx) as (o & a' & b' & m' & R & HR' & _ & F).
+    exists o, a', b', m'. split; [exact R|].
     destruct HR as (C0 & S0 & _). destruct HR' as (C1 & S1 & _).
     split; [congruence|]. split.
     - intros x Hx0 HP. rewrite (C1 x Hx0 HP), (C0 x Hx0 HP). reflexivity.
